@@ -4315,6 +4315,13 @@ TE_FILES = [
 # constructors probe the user's callables once at the fixed time 1.0 (input validation only;
 # the results never depend on it) -- those functions are not time expressions of a computation
 TE_SKIP_FUNCTIONS = lambda name: name.startswith("_check_")
+# GibbsTempo propagates in imaginary time from 0 to 1/T: it has no time origin to translate
+TE_SKIP_CLASSES = ("GibbsTempo",)
+# ... and the constructors of the time dependent systems read the dimension off H(1.0)
+TE_PROBES = {
+    ("oqupy/system.py", "TimeDependentSystem.__init__", "self._hamiltonian(1.0)"),
+    ("oqupy/system.py", "TimeDependentSystemWithField.__init__", "self._hamiltonian(1.0, 1.0 + 1j)"),
+}
 
 TE_ROLES = {
     # times: move with the origin
@@ -4554,7 +4561,8 @@ def _te_own_nodes(fn):
                 continue
             rec(ch, node)
     for st in fn.body:
-        rec(st, fn)
+        if not isinstance(st, (ast.FunctionDef, ast.AsyncFunctionDef, ast.ClassDef)):
+            rec(st, fn)
     return out
 
 
@@ -4607,6 +4615,8 @@ def _te_scan(rel, qual, fn, inherited, sites):
                         val = val.elts[0]
                     w = _TEWalker(roles)
                     try:
+                        if roles[nm] == "I" and not _te_mentions_time(val, roles):
+                            continue        # plain integer bookkeeping
                         w.texpr(val)
                         add(nm, roles[nm], val, node)
                     except Untranslatable as ex:
@@ -4629,6 +4639,8 @@ def _te_scan(rel, qual, fn, inherited, sites):
             if cal == "append" and isinstance(node.func, ast.Attribute) \
                     and _te_norm(node.func.value) == "self._results['time']":
                 table = {1: ["T"]}
+            if (rel, qual, _te_norm(node)) in TE_PROBES:
+                table = None
             if table is not None and not any(isinstance(a, ast.Starred) for a in node.args):
                 pos = table.get(len(node.args))
                 if pos is None and node.args and not node.keywords:
@@ -4714,8 +4726,8 @@ def frag_timeexprs(src):
         for qual, fn in _te_functions(tree):
             if only is not None and qual not in only:
                 continue
-            if TE_SKIP_FUNCTIONS(qual.split(".")[-1]) or any(
-                    TE_SKIP_FUNCTIONS(p) for p in qual.split(".")):
+            if any(TE_SKIP_FUNCTIONS(p) for p in qual.split(".")) \
+                    or qual.split(".")[0] in TE_SKIP_CLASSES:
                 continue
             _te_scan(rel, qual, fn, None, sites)
     # names: <qual>__<sink>[_n]
@@ -5394,6 +5406,1928 @@ def frag_gradwiring(src):
                "def bwdJoinAligned : Bool := (!bwdCallReversed) || applyReverseReorders\n")
     return "\n".join(out)
 # end of GradWiring
+
+
+# ---------------------------------------------------------------------------
+# MeanFieldTimes  (C09):  the time / step / state / field arguments handed to the user's
+# `field_eom` and to the system propagators in one step of mean-field TEMPO and of
+# compute_dynamics_with_field, the Heun update expressions, the statement order of both
+# step loops, and the sample times of the (field-dependent and plain) system propagators
+# ---------------------------------------------------------------------------
+
+MF_PREAMBLE = '''/-- statements of `MeanFieldTempoBackend.compute_step`, in source order -/
+inductive MftOp where
+  | readStep | nextStep | copyStates | readField | fieldDerivative | propagators
+  | saveNetworks | tryBegin | systemStep | computeField | tryEnd
+  | commitStates | commitField | commitStep | returnResult
+  deriving DecidableEq, Repr
+
+/-- statements of the step loop of `compute_dynamics_with_field` (and of the block after it) -/
+inductive CdwfOp where
+  | time | getControls | applyPre | breakIfLast | getCaps | applyCaps | reshapeStates
+  | fieldUpdate | aliasStates | aliasTime | record | progress | applyPost
+  | propagators | getMpos | applyP1 | applyMpo | applyP2
+  | appendStates | finalField | appendField | makeTimes | returnResult
+  deriving DecidableEq, Repr
+'''
+
+_MF_KCLASSES = "{K : Type} [Add K] [Sub K] [Mul K] [Div K]"
+
+
+def _mf_norm(n):
+    return " ".join(ast.unparse(n).split())
+
+
+def _mf_strip(stmts):
+    """drop docstrings"""
+    return [s for s in stmts
+            if not (isinstance(s, ast.Expr) and isinstance(s.value, ast.Constant)
+                    and isinstance(s.value.value, str))]
+
+
+class _MfTr(FnTranslator):
+    """FnTranslator + `self._time(x)` -> (mft_time start_time dt x)."""
+
+    def call(self, e):
+        ch = attr_chain(e.func)
+        if ch == ["self", "_time"] and len(e.args) == 1 and not e.keywords:
+            a = self.expr(e.args[0])
+            if a[1] != "Int":
+                raise Untranslatable("self._time(<non-int>)")
+            s, _ = self.var("start_time", "Flt")
+            d, _ = self.var("dt", "Flt")
+            return "(mft_time %s %s %s)" % (s, d, a[0]), "Flt"
+        return super().call(e)
+
+
+def _mf_flt_def(name, lets, node, params, doc, types=None, ret="Flt", subst=None):
+    """Lean def of the float/int expression `node` under the local bindings `lets`
+    ([(python name, ast value)], in source order)."""
+    ty = {"start_time": "Flt", "dt": "Flt", "t": "Flt", "step": "Int", "num_steps": "Int",
+          "current_step": "Int"}
+    ty.update(types or {})
+    tr = _MfTr(ty)
+    prefix = ""
+    needed = {n.id for n in ast.walk(node) if isinstance(n, ast.Name)}
+    keep = []
+    for nm, val in reversed(list(lets)):
+        if nm in needed:
+            keep.append((nm, val))
+            if not isinstance(val, str):
+                needed |= {n.id for n in ast.walk(val) if isinstance(n, ast.Name)}
+    keep.reverse()
+    for nm, val in keep:
+        if isinstance(val, str):             # ready-made Lean term (Flt)
+            term, t = val, "Flt"
+            for v in (subst or {}).get(nm, ()):
+                tr.var(v)
+        else:
+            term, t = tr.expr(val)
+        l = lean_ident(nm)
+        tr.types[l] = t
+        prefix += "let %s : %s := %s\n  " % (l, LTYPE[t], term)
+        tr.bound = tuple(tr.bound) + (l,)
+    t = tr.expr(node)
+    if ret == "Flt":
+        term = tr.to_flt(t)
+    else:
+        if t[1] != ret:
+            raise Untranslatable("%s: type %s, expected %s" % (name, t[1], ret))
+        term = t[0]
+    return emit_def(name, tr, prefix + term, ret, params, doc)
+
+
+def _mf_kexpr(node, allowed, nums):
+    """expression over the complex field type: names in `allowed`, + - * /, int literals"""
+    if isinstance(node, ast.Name):
+        if node.id not in allowed:
+            raise Untranslatable("field expression reads %r (allowed: %s)" % (node.id, allowed))
+        return lean_ident(node.id)
+    if isinstance(node, ast.Constant) and isinstance(node.value, int) \
+            and not isinstance(node.value, bool) and node.value >= 0:
+        nums.add(node.value)
+        return "(%d : K)" % node.value
+    if isinstance(node, ast.BinOp) and isinstance(node.op, (ast.Add, ast.Sub, ast.Mult, ast.Div)):
+        sym = {ast.Add: "+", ast.Sub: "-", ast.Mult: "*", ast.Div: "/"}[type(node.op)]
+        return "(%s %s %s)" % (_mf_kexpr(node.left, allowed, nums), sym,
+                               _mf_kexpr(node.right, allowed, nums))
+    raise Untranslatable("field expression " + _mf_norm(node)[:120])
+
+
+def _mf_kdef(name, node, params, doc):
+    nums = set()
+    term = _mf_kexpr(node, params, nums)
+    cls = _MF_KCLASSES + "".join(" [OfNat K %d]" % n for n in sorted(nums))
+    return "/-- %s -/\ndef %s %s %s : K :=\n  %s\n" % (
+        doc.replace("-/", "- /"), name, cls,
+        " ".join("(%s : K)" % lean_ident(p) for p in params), term)
+
+
+def _mf_select(name, node, table, params, doc, tyvar="S"):
+    """`node` must be a Name; table: python name -> one of `params`"""
+    if not isinstance(node, ast.Name) or node.id not in table:
+        raise Untranslatable("%s: argument %s is not one of %s"
+                             % (name, _mf_norm(node)[:80], sorted(table)))
+    return "/-- %s -/\ndef %s {%s : Type} %s : %s :=\n  %s\n" % (
+        doc.replace("-/", "- /"), name, tyvar,
+        " ".join("(%s : %s)" % (p, tyvar) for p in params), tyvar, table[node.id])
+
+
+def _mf_is_reshape_rebind(s):
+    """X = [state.reshape((hs_dim, hs_dim)) for state, hs_dim in zip(X, ...)]  -> X"""
+    if not (isinstance(s, ast.Assign) and len(s.targets) == 1
+            and isinstance(s.targets[0], ast.Name) and isinstance(s.value, ast.ListComp)):
+        return None
+    lc = s.value
+    if len(lc.generators) != 1 or lc.generators[0].ifs:
+        return None
+    g = lc.generators[0]
+    if _mf_norm(lc.elt) != "state.reshape((hs_dim, hs_dim))" or _mf_norm(g.target) != "(state, hs_dim)":
+        return None
+    it = g.iter
+    if not (isinstance(it, ast.Call) and _mf_norm(it.func) == "zip" and len(it.args) == 2
+            and isinstance(it.args[0], ast.Name) and it.args[0].id == s.targets[0].id):
+        return None
+    return s.targets[0].id
+
+
+def _mf_eom_call(node, eom_names):
+    """`<...>.field_eom(t, states, field)` -> the three argument nodes"""
+    if isinstance(node, ast.Call) and _mf_norm(node.func) in eom_names \
+            and len(node.args) == 3 and not node.keywords:
+        return node.args
+    return None
+
+
+def _mf_heun_body(stmts, out, pre, rel, qual, eom_names, time_params, lets0=()):
+    """The body shared by MeanFieldTempo._compute_field and the `compute_field` closure of
+    compute_dynamics_with_field:  float locals, reshape re-bindings,
+        rk1 = field_eom(T1, S1, F1);  rk2 = field_eom(T2, S2, F2);  return UPDATE."""
+    lets = list(lets0)
+    rk = {}
+    states = {"state_list": "state_list", "next_state_list": "next_state_list"}
+    for s in _mf_strip(stmts):
+        where = "%s:%d %s" % (rel, s.lineno, qual)
+        nm = _mf_is_reshape_rebind(s)
+        if nm is not None:
+            if nm not in states:
+                raise Untranslatable(where + ": reshape of " + nm)
+            continue
+        if isinstance(s, ast.Return):
+            if sorted(rk) != ["rk1", "rk2"]:
+                raise Untranslatable(where + ": return before rk1 and rk2 are computed")
+            out.append(_mf_kdef(pre + "_result", s.value, ["field", "dt", "rk1", "rk2"],
+                                where + ":  return " + _mf_norm(s.value)))
+            return
+        if not (isinstance(s, ast.Assign) and len(s.targets) == 1
+                and isinstance(s.targets[0], ast.Name)):
+            raise Untranslatable(where + ": unexpected statement " + _mf_norm(s)[:100])
+        tgt = s.targets[0].id
+        args = _mf_eom_call(s.value, eom_names)
+        if args is not None:
+            if tgt not in ("rk1", "rk2") or tgt in rk or (tgt == "rk2" and "rk1" not in rk):
+                raise Untranslatable(where + ": field_eom result stored in " + tgt)
+            rk[tgt] = True
+            doc = where + ":  " + _mf_norm(s)
+            out.append(_mf_flt_def("%s_%s_time" % (pre, tgt), lets, args[0], time_params, doc))
+            out.append(_mf_select("%s_%s_states" % (pre, tgt), args[1], states,
+                                  ["state_list", "next_state_list"], doc))
+            kp = ["field", "dt"] + (["rk1"] if tgt == "rk2" else [])
+            out.append(_mf_kdef("%s_%s_field" % (pre, tgt), args[2], kp, doc))
+            continue
+        if tgt in ("state_list", "next_state_list", "field", "rk1", "rk2"):
+            raise Untranslatable(where + ": assignment to " + tgt)
+        lets.append((tgt, s.value))
+    raise Untranslatable("%s %s: no return" % (rel, qual))
+
+
+def _mf_mft(src, out):
+    rel = "oqupy/tempo.py"
+    ty = {"start_time": "Flt", "dt": "Flt", "step": "Int"}
+    t, _ = translate_function(src, rel, "MeanFieldTempo._time", "mft_time", ty, "Flt",
+                              ["start_time", "dt", "step"])
+    out.append(t)
+    eom = ("self._mean_field_system.field_eom",)
+    # _compute_field_derivative(self, step, state_list, field)
+    fn = src.function(rel, "MeanFieldTempo._compute_field_derivative")
+    if [a.arg for a in fn.args.args] != ["self", "step", "state_list", "field"]:
+        raise Untranslatable("MeanFieldTempo._compute_field_derivative: parameters")
+    lets = []
+    done = False
+    for s in _mf_strip(fn.body):
+        where = "%s:%d MeanFieldTempo._compute_field_derivative" % (rel, s.lineno)
+        if _mf_is_reshape_rebind(s) == "state_list":
+            continue
+        if isinstance(s, ast.Return):
+            args = _mf_eom_call(s.value, eom)
+            if args is None:
+                raise Untranslatable(where + ": does not return field_eom(...)")
+            doc = where + ":  " + _mf_norm(s)
+            out.append(_mf_flt_def("mft_fd_time", lets, args[0], ["start_time", "dt", "step"], doc))
+            out.append(_mf_select("mft_fd_states", args[1], {"state_list": "state_list"},
+                                  ["state_list"], doc))
+            out.append(_mf_kdef("mft_fd_field", args[2], ["field"], doc))
+            done = True
+            break
+        if isinstance(s, ast.Assign) and len(s.targets) == 1 and isinstance(s.targets[0], ast.Name) \
+                and s.targets[0].id not in ("state_list", "field", "step"):
+            lets.append((s.targets[0].id, s.value))
+            continue
+        raise Untranslatable(where + ": unexpected statement " + _mf_norm(s)[:100])
+    if not done:
+        raise Untranslatable("MeanFieldTempo._compute_field_derivative: no return")
+    # _compute_field(self, step, state_list, field, next_state_list)
+    fn = src.function(rel, "MeanFieldTempo._compute_field")
+    if [a.arg for a in fn.args.args] != ["self", "step", "state_list", "field", "next_state_list"]:
+        raise Untranslatable("MeanFieldTempo._compute_field: parameters")
+    _mf_heun_body(fn.body, out, "mft_cf", rel, "MeanFieldTempo._compute_field", eom,
+                  ["start_time", "dt", "step"])
+
+
+def _mf_listcomp_call(value, func_pred):
+    """[ f(args) for ... ]  ->  the Call node f(args)"""
+    if isinstance(value, ast.ListComp) and isinstance(value.elt, ast.Call) \
+            and func_pred(_mf_norm(value.elt.func)) and not value.elt.keywords:
+        return value.elt
+    return None
+
+
+def _mf_backend(src, out):
+    rel = "oqupy/backends/tempo_backend.py"
+    qual = "MeanFieldTempoBackend.compute_step"
+    fn = src.function(rel, qual)
+    stmts = []
+    for s in _mf_strip(fn.body):
+        if isinstance(s, ast.Try):
+            ok = (not s.orelse and not s.finalbody and s.handlers
+                  and all(h.body and isinstance(h.body[-1], ast.Raise) and h.body[-1].exc is None
+                          for h in s.handlers))
+            if not ok:
+                raise Untranslatable(qual + ": try block that does not re-raise")
+            stmts.append("tryBegin")
+            stmts.extend(s.body)
+            stmts.append("tryEnd")
+        else:
+            stmts.append(s)
+    tags = []
+    lets = []                      # Int locals
+    states = {}                    # python name -> cur | next
+    fields = {}                    # python name -> current_field | current_field_derivative
+    seen = set()
+    SP = ["current_state_list", "next_state_list"]
+    FP = ["current_field", "current_field_derivative"]
+
+    def need(*tg):
+        for x in tg:
+            if x not in seen:
+                raise Untranslatable("%s: `%s` used before it is computed" % (qual, x))
+
+    def avail(order, table):
+        """the values that exist at this point of the method, in canonical order"""
+        return [p for p in order if p in table.values()]
+
+    for s in stmts:
+        if isinstance(s, str):
+            tags.append(s)
+            continue
+        t = _mf_norm(s)
+        where = "%s:%d %s" % (rel, s.lineno, qual)
+        doc = where + ":  " + t
+        if t == "current_step = self._step":
+            tags.append("readStep")
+            continue
+        if isinstance(s, ast.Assign) and t.startswith("next_step = "):
+            lets.append(("next_step", s.value))
+            tags.append("nextStep")
+            continue
+        if t == "current_state_list = deepcopy(self._state_list)":
+            states["current_state_list"] = "current_state_list"
+            tags.append("copyStates")
+            continue
+        if t == "current_field = self._field":
+            fields["current_field"] = "current_field"
+            tags.append("readField")
+            continue
+        if isinstance(s, ast.Assign) and _mf_norm(s.targets[0]) == "current_field_derivative":
+            c = s.value
+            if not (isinstance(c, ast.Call) and _mf_norm(c.func) == "self._compute_field_derivative"
+                    and len(c.args) == 3 and not c.keywords):
+                raise Untranslatable(where + ": field derivative call")
+            out.append(_mf_flt_def("mftb_fd_step", lets, c.args[0], ["current_step"], doc, ret="Int"))
+            out.append(_mf_select("mftb_fd_states", c.args[1], states, avail(SP, states), doc))
+            out.append(_mf_select("mftb_fd_field", c.args[2], fields, avail(FP, fields), doc, "K"))
+            fields["current_field_derivative"] = "current_field_derivative"
+            seen.add("fieldDerivative")
+            tags.append("fieldDerivative")
+            continue
+        if isinstance(s, ast.Assign) and _mf_norm(s.targets[0]) == "prop_tuple_list":
+            c = _mf_listcomp_call(s.value, lambda f: f == "propagators")
+            if c is None or len(c.args) != 3 or \
+                    "self._propagators_list" not in _mf_norm(s.value.generators[0].iter):
+                raise Untranslatable(where + ": propagators call")
+            need("fieldDerivative")
+            out.append(_mf_flt_def("mftb_prop_step", lets, c.args[0], ["current_step"], doc, ret="Int"))
+            out.append(_mf_select("mftb_prop_field", c.args[1], fields, avail(FP, fields), doc, "K"))
+            out.append(_mf_select("mftb_prop_deriv", c.args[2], fields, avail(FP, fields), doc, "K"))
+            seen.add("propagators")
+            tags.append("propagators")
+            continue
+        if isinstance(s, ast.Assign) and _mf_norm(s.targets[0]) == "networks_list" \
+                and _mf_listcomp_call(s.value, lambda f: f == "backend.copy_networks") is not None:
+            tags.append("saveNetworks")
+            continue
+        if isinstance(s, ast.Assign) and _mf_norm(s.targets[0]) == "next_state_list":
+            c = _mf_listcomp_call(s.value, lambda f: f == "backend.compute_system_step")
+            if c is None or len(c.args) != 2 or _mf_norm(c.args[1]) != "*prop_tuple" or \
+                    _mf_norm(s.value.generators[0].iter) != "zip(self._backend_list, prop_tuple_list)":
+                raise Untranslatable(where + ": system step call")
+            need("propagators")
+            out.append(_mf_flt_def("mftb_sys_step", lets, c.args[0], ["current_step"], doc, ret="Int"))
+            states["next_state_list"] = "next_state_list"
+            seen.add("systemStep")
+            tags.append("systemStep")
+            continue
+        if isinstance(s, ast.Assign) and _mf_norm(s.targets[0]) == "next_field":
+            c = s.value
+            if not (isinstance(c, ast.Call) and _mf_norm(c.func) == "self._compute_field"
+                    and len(c.args) == 4 and not c.keywords):
+                raise Untranslatable(where + ": compute_field call")
+            need("systemStep")
+            out.append(_mf_flt_def("mftb_cf_step", lets, c.args[0], ["current_step"], doc, ret="Int"))
+            out.append(_mf_select("mftb_cf_states", c.args[1], states, avail(SP, states), doc))
+            out.append(_mf_select("mftb_cf_field", c.args[2], fields, avail(FP, fields), doc, "K"))
+            out.append(_mf_select("mftb_cf_next_states", c.args[3], states, avail(SP, states), doc))
+            seen.add("computeField")
+            tags.append("computeField")
+            continue
+        if t == "self._state_list = next_state_list":
+            need("systemStep")
+            tags.append("commitStates")
+            continue
+        if t == "self._field = next_field":
+            need("computeField")
+            tags.append("commitField")
+            continue
+        if isinstance(s, ast.Assign) and _mf_norm(s.targets[0]) == "self._step":
+            out.append(_mf_flt_def("mftb_commit_step", lets, s.value, ["current_step"], doc, ret="Int"))
+            tags.append("commitStep")
+            continue
+        if t == "return (self._step, deepcopy(self._state_list), self._field)":
+            tags.append("returnResult")
+            continue
+        raise Untranslatable(where + ": unexpected statement: " + t[:140])
+    for x in ("readStep", "copyStates", "readField", "fieldDerivative", "propagators", "systemStep",
+              "computeField", "commitStates", "commitField", "commitStep", "returnResult"):
+        if tags.count(x) != 1:
+            raise Untranslatable("%s: expected exactly one `%s` statement" % (qual, x))
+    out.append("/-- %s:%d  %s (statement order) -/\ndef mftb_order : List MftOp :=\n  [%s]\n"
+               % (rel, fn.lineno, qual, ", ".join("." + x for x in tags)))
+    # TempoBackend.compute_step: the step handed to the propagators / to compute_system_step,
+    # as a function of the counter before the call
+    qual = "TempoBackend.compute_step"
+    fn = src.function(rel, qual)
+    cur = ast.Name(id="step", ctx=ast.Load())
+
+    class _Sub(ast.NodeTransformer):
+        def visit_Attribute(self, node):
+            if _mf_norm(node) == "self._step":
+                return cur
+            return self.generic_visit(node)
+
+    got = set()
+    for s in _mf_strip(fn.body):
+        t = _mf_norm(s)
+        where = "%s:%d %s" % (rel, s.lineno, qual)
+        if isinstance(s, ast.AugAssign) and _mf_norm(s.target) == "self._step" \
+                and isinstance(s.op, ast.Add):
+            cur = ast.BinOp(left=cur, op=ast.Add(), right=s.value)
+            continue
+        if isinstance(s, ast.Assign) and _mf_norm(s.targets[0]) == "(prop_1, prop_2)" \
+                and isinstance(s.value, ast.Call) and _mf_norm(s.value.func) == "self._propagators" \
+                and len(s.value.args) == 1:
+            e = _Sub().visit(ast.parse(_mf_norm(s.value.args[0]), mode="eval").body)
+            out.append(_mf_flt_def("tb_prop_step", [], e, ["step"], where + ":  " + t, ret="Int"))
+            got.add("prop")
+            continue
+        if isinstance(s, ast.Assign) and _mf_norm(s.targets[0]) == "self._state" \
+                and isinstance(s.value, ast.Call) \
+                and _mf_norm(s.value.func) == "self.compute_system_step" and len(s.value.args) == 3 \
+                and [_mf_norm(a) for a in s.value.args[1:]] == ["prop_1", "prop_2"]:
+            if "prop" not in got:
+                raise Untranslatable(where + ": system step before the propagators")
+            e = _Sub().visit(ast.parse(_mf_norm(s.value.args[0]), mode="eval").body)
+            out.append(_mf_flt_def("tb_sys_step", [], e, ["step"], where + ":  " + t, ret="Int"))
+            got.add("sys")
+            continue
+        if isinstance(s, ast.Return):
+            e = _Sub().visit(ast.parse("self._step", mode="eval").body)
+            out.append(_mf_flt_def("tb_commit_step", [], e, ["step"],
+                                   where + ":  counter when the method returns", ret="Int"))
+            got.add("ret")
+            continue
+        raise Untranslatable(where + ": unexpected statement: " + t[:140])
+    if got != {"prop", "sys", "ret"}:
+        raise Untranslatable(qual + ": propagators / system step / return not all found")
+
+
+def _mf_cdwf(src, out):
+    rel = "oqupy/system_dynamics.py"
+    qual = "compute_dynamics_with_field"
+    fn = src.function(rel, qual)
+    body = _mf_strip(fn.body)
+    # -- the compute_field closure
+    inner = [s for s in body if isinstance(s, ast.FunctionDef) and s.name == "compute_field"]
+    if len(inner) != 1 or [a.arg for a in inner[0].args.args] != \
+            ["t", "dt", "state_list", "field", "next_state_list"]:
+        raise Untranslatable(qual + ": the `compute_field` closure")
+    _mf_heun_body(inner[0].body, out, "cdwf_cf", rel, qual + ".compute_field",
+                  ("mean_field_system.field_eom",), ["t", "dt"])
+    # -- the propagators come from get_propagators(dt, start_time, ...) of each system
+    pl = [s for s in body if isinstance(s, ast.Assign) and _mf_norm(s.targets[0]) == "propagators_list"]
+    if len(pl) != 1 or not _mf_norm(pl[0].value).startswith(
+            "[system.get_propagators(dt, start_time, subdiv_limit, liouvillian_epsrel) for system in"):
+        raise Untranslatable(qual + ": construction of propagators_list")
+    loops = [(i, s) for i, s in enumerate(body) if isinstance(s, ast.For)]
+    loops = [(i, s) for i, s in loops if _mf_norm(s.target) == "step"]
+    if len(loops) != 1:
+        raise Untranslatable(qual + ": expected exactly one `for step in ...` loop")
+    idx, loop = loops[0]
+    if _mf_norm(loop.iter) != "range(num_steps + 1)" or loop.orelse:
+        raise Untranslatable(qual + ": loop header " + _mf_norm(loop.iter))
+    lb = _mf_strip(loop.body)
+    tags = []
+    pos = {}                      # tag -> index in lb
+    t_expr = None
+    alias = {}                    # python name -> (source name, index)
+    info = {}
+    for i, s in enumerate(lb):
+        t = _mf_norm(s)
+        where = "%s:%d %s" % (rel, s.lineno, qual)
+        tgt = _mf_norm(s.targets[0]) if isinstance(s, ast.Assign) and len(s.targets) == 1 else None
+
+        def put(tag):
+            if tag in pos and tag not in ("applyCaps",):
+                raise Untranslatable(where + ": second `%s` statement in the loop" % tag)
+            pos[tag] = i
+            tags.append(tag)
+        if tgt == "t":
+            t_expr = s
+            put("time")
+        elif tgt == "controls_tuple_list" and t.startswith(
+                "controls_tuple_list = [prepare_controls(step, control) for control in"):
+            put("getControls")
+        elif tgt == "nodes_and_edges_list" and "_apply_system_superoperator" in t:
+            which = None
+            for key, tag in (("pre_measurement_control)", "applyPre"),
+                             ("post_measurement_control)", "applyPost"),
+                             ("first_half_prop)", "applyP1"), ("second_half_prop)", "applyP2")):
+                if ("current_edges, %s" % key) in t:
+                    which = tag
+            if which is None:
+                raise Untranslatable(where + ": superoperator application: " + t[:100])
+            put(which)
+        elif t == "if step == num_steps: break":
+            put("breakIfLast")
+        elif tgt == "caps_list":
+            c = _mf_listcomp_call(s.value, lambda f: f == "_get_caps")
+            if c is None or len(c.args) != 2:
+                raise Untranslatable(where + ": caps")
+            info["caps"] = (c.args[1], where + ":  " + t)
+            put("getCaps")
+        elif tgt == "state_tensor_list" and "_apply_caps(current_node, current_edges, caps)" in t:
+            put("applyCaps")
+        elif tgt == "state_list" and t.startswith(
+                "state_list = [state_tensor.reshape((hs_dim, hs_dim)) for state_tensor, hs_dim in "
+                "zip(state_tensor_list,"):
+            put("reshapeStates")
+        elif isinstance(s, ast.If) and _mf_norm(s.test) == "step == 0":
+            if [_mf_norm(x) for x in s.body] != ["field = initial_field"] or len(s.orelse) != 1 \
+                    or not isinstance(s.orelse[0], ast.Assign) \
+                    or _mf_norm(s.orelse[0].targets[0]) != "field":
+                raise Untranslatable(where + ": shape of the field update")
+            c = s.orelse[0].value
+            if not (isinstance(c, ast.Call) and _mf_norm(c.func) == "compute_field"
+                    and len(c.args) == 5 and not c.keywords):
+                raise Untranslatable(where + ": field update is not a compute_field call")
+            info["update"] = (c, where + ":  " + _mf_norm(s.orelse[0]))
+            put("fieldUpdate")
+        elif isinstance(s, ast.Assign) and isinstance(s.targets[0], ast.Name) \
+                and isinstance(s.value, ast.Name) and s.value.id in ("state_list", "t"):
+            alias[s.targets[0].id] = (s.value.id, i)
+            put("aliasStates" if s.value.id == "state_list" else "aliasTime")
+        elif isinstance(s, ast.If) and _mf_norm(s.test) == "record_all":
+            if [_mf_norm(x) for x in s.body] != ["system_states_list.append(state_list)",
+                                                  "field_list.append(field)"] or s.orelse:
+                raise Untranslatable(where + ": recording block")
+            put("record")
+        elif t == "prog_bar.update(step)":
+            put("progress")
+        elif tgt == "propagator_tuples_list":
+            c = _mf_listcomp_call(s.value, lambda f: f == "propagators")
+            if c is None or len(c.args) != 3 or \
+                    _mf_norm(s.value.generators[0].iter) != "propagators_list":
+                raise Untranslatable(where + ": propagators call")
+            info["prop"] = (c, where + ":  " + t)
+            put("propagators")
+        elif tgt == "pt_mpos_list":
+            c = _mf_listcomp_call(s.value, lambda f: f == "_get_pt_mpos")
+            if c is None or len(c.args) != 2:
+                raise Untranslatable(where + ": pt mpos")
+            info["mpo"] = (c.args[1], where + ":  " + t)
+            put("getMpos")
+        elif tgt == "nodes_and_edges_list" and "_apply_pt_mpos(current_node, current_edges, pt_mpos)" in t:
+            put("applyMpo")
+        else:
+            raise Untranslatable(where + ": unexpected statement in the loop: " + t[:140])
+    for x in ("time", "breakIfLast", "getCaps", "applyCaps", "reshapeStates", "fieldUpdate",
+              "record", "propagators", "getMpos", "applyP1", "applyMpo", "applyP2"):
+        if x not in pos:
+            raise Untranslatable("%s: no `%s` statement in the loop" % (qual, x))
+    if not (pos["time"] < pos["breakIfLast"] < pos["getCaps"] < pos["applyCaps"]
+            < pos["reshapeStates"] < pos["fieldUpdate"]):
+        raise Untranslatable(qual + ": order of time / break / state read-out / field update")
+    out.append(_mf_flt_def("cdwf_t", [], t_expr.value, ["start_time", "dt", "step"],
+                           "%s:%d %s:  %s" % (rel, t_expr.lineno, qual, _mf_norm(t_expr))))
+
+    # values of the loop's names at a given statement index `at` of iteration `step`
+    def loop_env(at):
+        lets, stab = [("t", "(cdwf_t start_time dt step)")], {}
+        sub = {"t": ("start_time", "dt", "step")}
+        if pos["reshapeStates"] < at:
+            stab["state_list"] = "cur"
+        for nm, (srcn, i) in alias.items():
+            lag = 0 if i < at else 1
+            if srcn == "t":
+                lets.append((nm, "(cdwf_t start_time dt step)" if lag == 0
+                             else "(cdwf_t start_time dt (step - (1 : Int)))"))
+                sub[nm] = ("start_time", "dt", "step")
+            else:
+                stab[nm] = "cur" if lag == 0 else "prev"
+        return lets, stab, sub
+
+    # -- the field update of iteration step >= 1
+    c, doc = info["update"]
+    lets, stab, sub = loop_env(pos["fieldUpdate"])
+    out.append(_mf_flt_def("cdwf_loop_cf_time", lets, c.args[0], ["start_time", "dt", "step"], doc,
+                           subst=sub))
+    out.append(_mf_flt_def("cdwf_loop_cf_dt", lets, c.args[1], ["start_time", "dt", "step"], doc,
+                           subst=sub))
+    out.append(_mf_select("cdwf_loop_cf_states", c.args[2], stab, ["prev", "cur"], doc))
+    if _mf_norm(c.args[3]) != "field":
+        raise Untranslatable(doc + ": the field argument is not the loop's `field`")
+    out.append(_mf_select("cdwf_loop_cf_next_states", c.args[4], stab, ["prev", "cur"], doc))
+    # -- the propagators of iteration `step`
+    c, doc = info["prop"]
+    if pos["propagators"] < pos["fieldUpdate"]:
+        raise Untranslatable(doc + ": propagators computed before the field update")
+    lets, stab, sub = loop_env(pos["propagators"])
+    out.append(_mf_flt_def("cdwf_prop_step", lets, c.args[0], ["step"], doc, ret="Int", subst=sub))
+    if _mf_norm(c.args[1]) != "field":
+        raise Untranslatable(doc + ": the field argument is not the loop's `field`")
+    args = _mf_eom_call(c.args[2], ("mean_field_system.field_eom",))
+    if args is None:
+        raise Untranslatable(doc + ": the derivative is not a field_eom call")
+    out.append(_mf_flt_def("cdwf_fd_time", lets, args[0], ["start_time", "dt", "step"], doc, subst=sub))
+    out.append(_mf_select("cdwf_fd_states", args[1], stab, ["prev", "cur"], doc))
+    if _mf_norm(args[2]) != "field":
+        raise Untranslatable(doc + ": the field handed to field_eom is not the loop's `field`")
+    e, doc = info["mpo"]
+    out.append(_mf_flt_def("cdwf_mpo_step", [], e, ["step"], doc, ret="Int"))
+    e, doc = info["caps"]
+    out.append(_mf_flt_def("cdwf_caps_step", [], e, ["step"], doc, ret="Int"))
+    out.append("/-- %s:%d  %s:  for step in range(num_steps + 1): ...   (statement order) -/\n"
+               "def cdwf_loop_order : List CdwfOp :=\n  [%s]\n"
+               % (rel, loop.lineno, qual, ", ".join("." + x for x in tags)))
+
+    # -- after the loop: the loop was left by `break` in iteration step == num_steps; names bound
+    #    before the break hold the values of that iteration, all others those of num_steps - 1
+    def final_env():
+        lets = [("step", ast.Name(id="num_steps", ctx=ast.Load())),
+                ("t", "(cdwf_t start_time dt num_steps)")]
+        stab = {"final_state_list": "cur", "state_list": "prev"}
+        sub = {"t": ("start_time", "dt", "num_steps")}
+        for nm, (srcn, i) in alias.items():
+            if i < pos["breakIfLast"]:
+                raise Untranslatable(qual + ": alias assigned before the break")
+            if srcn == "t":
+                lets.append((nm, "(cdwf_t start_time dt (num_steps - (1 : Int)))"))
+                sub[nm] = ("start_time", "dt", "num_steps")
+            else:
+                stab[nm] = "prev"
+        return lets, stab, sub
+
+    after = []
+    guarded = None
+    for s in body[idx + 1:]:
+        t = _mf_norm(s)
+        where = "%s:%d %s" % (rel, s.lineno, qual)
+        tgt = _mf_norm(s.targets[0]) if isinstance(s, ast.Assign) and len(s.targets) == 1 else None
+        call = None
+        if tgt == "caps_list":
+            c = _mf_listcomp_call(s.value, lambda f: f == "_get_caps")
+            if c is None or len(c.args) != 2:
+                raise Untranslatable(where + ": caps")
+            lets, stab, sub = final_env()
+            out.append(_mf_flt_def("cdwf_final_caps_step", lets[:1], c.args[1], ["num_steps"],
+                                   where + ":  " + t, ret="Int"))
+            after.append("getCaps")
+        elif tgt == "state_tensor_list" and "_apply_caps(current_node, current_edges, caps)" in t:
+            after.append("applyCaps")
+        elif tgt == "final_state_list" and t.startswith(
+                "final_state_list = [state_tensor.reshape(hs_dim, hs_dim) for state_tensor, hs_dim "
+                "in zip(state_tensor_list,"):
+            after.append("reshapeStates")
+        elif t == "system_states_list.append(final_state_list)":
+            after.append("appendStates")
+        elif tgt == "final_field":
+            call, guarded = s.value, False
+        elif isinstance(s, ast.If) and _mf_norm(s.test) == "num_steps == 0" \
+                and [_mf_norm(x) for x in s.body] == ["final_field = initial_field"] \
+                and len(s.orelse) == 1 and isinstance(s.orelse[0], ast.Assign) \
+                and _mf_norm(s.orelse[0].targets[0]) == "final_field":
+            call, guarded = s.orelse[0].value, True
+        elif t == "field_list.append(final_field)":
+            after.append("appendField")
+        elif t.startswith("prog_bar."):
+            after.append("progress")
+        elif isinstance(s, ast.If) and _mf_norm(s.test) == "record_all" and \
+                all(_mf_norm(x).startswith("times = ") for x in list(s.body) + list(s.orelse)):
+            after.append("makeTimes")
+        elif isinstance(s, ast.Return) and t == ("return MeanFieldDynamics(times=list(times), "
+                                                 "system_states_list=system_states_list, "
+                                                 "fields=field_list)"):
+            after.append("returnResult")
+        else:
+            raise Untranslatable(where + ": unexpected statement after the loop: " + t[:140])
+        if call is not None:
+            if not (isinstance(call, ast.Call) and _mf_norm(call.func) == "compute_field"
+                    and len(call.args) == 5 and not call.keywords):
+                raise Untranslatable(where + ": final field is not a compute_field call")
+            if "reshapeStates" not in after:
+                raise Untranslatable(where + ": final field before the final states")
+            doc = where + ":  " + _mf_norm(call)
+            lets, stab, sub = final_env()
+            out.append(_mf_flt_def("cdwf_final_cf_time", lets, call.args[0],
+                                   ["start_time", "dt", "num_steps"], doc, subst=sub))
+            out.append(_mf_flt_def("cdwf_final_cf_dt", lets, call.args[1],
+                                   ["start_time", "dt", "num_steps"], doc, subst=sub))
+            out.append(_mf_select("cdwf_final_cf_states", call.args[2], stab, ["prev", "cur"], doc))
+            if _mf_norm(call.args[3]) != "field":
+                raise Untranslatable(doc + ": the field argument is not the loop's `field`")
+            out.append(_mf_select("cdwf_final_cf_next_states", call.args[4], stab,
+                                  ["prev", "cur"], doc))
+            after.append("finalField")
+    if guarded is None or after.count("finalField") != 1 or after.count("appendStates") != 1 \
+            or after.count("appendField") != 1 or after[-1] != "returnResult":
+        raise Untranslatable(qual + ": shape of the block after the loop")
+    out.append("/-- %s: with `num_steps == 0` no loop iteration binds `field` / the previous states; "
+               "true iff the final field is then taken to be `initial_field` -/\n"
+               "def cdwf_zero_steps_guarded : Bool := %s\n" % (qual, "true" if guarded else "false"))
+    out.append("/-- %s: statements after the loop (statement order) -/\n"
+               "def cdwf_after_order : List CdwfOp :=\n  [%s]\n"
+               % (qual, ", ".join("." + x for x in after)))
+    # -- compute_dynamics (the field-free reference): step handed to propagators / PT-MPOs
+    fn = src.function(rel, "compute_dynamics")
+    loops = [s for s in fn.body if isinstance(s, ast.For) and _mf_norm(s.target) == "step"]
+    if len(loops) != 1 or _mf_norm(loops[0].iter) != "range(num_steps + 1)":
+        raise Untranslatable("compute_dynamics: loop header")
+    found = {}
+    for s in loops[0].body:
+        t = _mf_norm(s)
+        if isinstance(s, ast.Assign) and _mf_norm(s.targets[0]) == "(first_half_prop, second_half_prop)" \
+                and isinstance(s.value, ast.Call) and _mf_norm(s.value.func) == "propagators" \
+                and len(s.value.args) == 1:
+            found["cd_prop_step"] = (s.value.args[0], s)
+        if isinstance(s, ast.Assign) and _mf_norm(s.targets[0]) == "pt_mpos" \
+                and isinstance(s.value, ast.Call) and _mf_norm(s.value.func) == "_get_pt_mpos" \
+                and len(s.value.args) == 2:
+            found["cd_mpo_step"] = (s.value.args[1], s)
+    for nm in ("cd_prop_step", "cd_mpo_step"):
+        if nm not in found:
+            raise Untranslatable("compute_dynamics: " + nm)
+        e, s = found[nm]
+        out.append(_mf_flt_def(nm, [], e, ["step"], "%s:%d compute_dynamics:  %s"
+                               % (rel, s.lineno, _mf_norm(s)), ret="Int"))
+
+
+def _mf_find_calls(node, pred):
+    return [n for n in ast.walk(node) if isinstance(n, ast.Call) and pred(_mf_norm(n.func))]
+
+
+def _mf_propagators(src, out):
+    rel = "oqupy/system.py"
+    for cls, pre, with_field in (("TimeDependentSystem", "tds", False),
+                                 ("TimeDependentSystemWithField", "tdsf", True)):
+        qual = cls + ".get_propagators"
+        fn = src.function(rel, qual)
+        if [a.arg for a in fn.args.args] != ["self", "dt", "start_time", "subdiv_limit", "epsrel"]:
+            raise Untranslatable(qual + ": parameters")
+        body = _mf_strip(fn.body)
+        if len(body) != 2 or not isinstance(body[0], ast.If) \
+                or _mf_norm(body[0].test) != "subdiv_limit is None" \
+                or _mf_norm(body[1]) != "return propagators":
+            raise Untranslatable(qual + ": unexpected shape")
+        want_params = ["step", "field", "field_derivative"] if with_field else ["step"]
+        for branch, kind in ((body[0].body, "sample"), (body[0].orelse, "int")):
+            defs = [s for s in branch if isinstance(s, ast.FunctionDef)]
+            if len(defs) != 1 or len(_mf_strip(branch)) != 1 or defs[0].name != "propagators" \
+                    or [a.arg for a in defs[0].args.args] != want_params:
+                raise Untranslatable("%s (%s branch): the `propagators` closure" % (qual, kind))
+            lets = []
+            lam_t0 = None
+            halves = {}
+            for s in _mf_strip(defs[0].body):
+                t = _mf_norm(s)
+                where = "%s:%d %s[%s]" % (rel, s.lineno, qual, kind)
+                tgt = _mf_norm(s.targets[0]) if isinstance(s, ast.Assign) and len(s.targets) == 1 else None
+                if tgt == "t":
+                    lets.append(("t", s.value))
+                    out.append(_mf_flt_def("%s_%s_t" % (pre, kind), [], s.value,
+                                           ["start_time", "dt", "step"], where + ":  " + t))
+                    continue
+                if tgt == "liouvillian" and isinstance(s.value, ast.Lambda) and with_field \
+                        and kind == "int":
+                    lam = s.value
+                    if [a.arg for a in lam.args.args] != ["tau"] or not isinstance(lam.body, ast.Call) \
+                            or _mf_norm(lam.body.func) != "self.liouvillian" \
+                            or [_mf_norm(a) for a in lam.body.args[1:]] != ["tau", "field", "field_derivative"]:
+                        raise Untranslatable(where + ": integrand lambda")
+                    lam_t0 = (lam.body.args[0], where + ":  " + t)
+                    continue
+                if tgt in ("first_step", "second_step"):
+                    n = 1 if tgt == "first_step" else 2
+                    if kind == "sample":
+                        calls = _mf_find_calls(s.value, lambda f: f == "self.liouvillian")
+                        if len(calls) != 1 or _mf_norm(s.value) != \
+                                "expm(%s * dt / 2.0)" % _mf_norm(calls[0]):
+                            raise Untranslatable(where + ": half-step propagator " + t[:100])
+                        a = calls[0].args
+                        if with_field:
+                            if len(a) != 4 or [_mf_norm(x) for x in a[2:]] != ["field", "field_derivative"]:
+                                raise Untranslatable(where + ": liouvillian arguments")
+                            out.append(_mf_flt_def("%s_sample%d_t0" % (pre, n), lets, a[0],
+                                                   ["start_time", "dt", "step"], where + ":  " + t))
+                            a = a[1:]
+                        elif len(a) != 1:
+                            raise Untranslatable(where + ": liouvillian arguments")
+                        out.append(_mf_flt_def("%s_sample%d" % (pre, n), lets, a[0],
+                                               ["start_time", "dt", "step"], where + ":  " + t))
+                    else:
+                        calls = _mf_find_calls(s.value, lambda f: f == "integrate.quad_vec")
+                        if len(calls) != 1 or _mf_norm(s.value) != "expm(%s[0])" % _mf_norm(calls[0]):
+                            raise Untranslatable(where + ": half-step propagator " + t[:100])
+                        c = calls[0]
+                        kw = {k.arg: k.value for k in c.keywords}
+                        integrand = "liouvillian" if with_field else "self.liouvillian"
+                        if len(c.args) != 1 or _mf_norm(c.args[0]) != integrand \
+                                or sorted(kw) != ["a", "b", "epsrel", "limit"]:
+                            raise Untranslatable(where + ": quad_vec arguments")
+                        for ab in ("a", "b"):
+                            out.append(_mf_flt_def("%s_int%d_%s" % (pre, n, ab), lets, kw[ab],
+                                                   ["start_time", "dt", "step"], where + ":  " + t))
+                    halves[tgt] = True
+                    continue
+                if t == "return (first_step, second_step)":
+                    continue
+                raise Untranslatable(where + ": unexpected statement " + t[:120])
+            if sorted(halves) != ["first_step", "second_step"]:
+                raise Untranslatable("%s (%s): half steps" % (qual, kind))
+            if with_field and kind == "int":
+                if lam_t0 is None:
+                    raise Untranslatable(qual + ": integrand lambda missing")
+                out.append(_mf_flt_def("tdsf_int_t0", lets, lam_t0[0], ["start_time", "dt", "step"],
+                                       lam_t0[1]))
+    # the linearised field handed to the Hamiltonian
+    cls = "TimeDependentSystemWithField"
+    fn = src.function(rel, cls + "._linearised_hamiltonian")
+    b = _mf_strip(fn.body)
+    if [a.arg for a in fn.args.args] != ["self", "t0", "t", "field", "field_derivative"] or len(b) != 1 \
+            or _mf_norm(b[0]) != ("return self._hamiltonian(t, self._linearised_field(t0, t, field, "
+                                  "field_derivative))"):
+        raise Untranslatable(cls + "._linearised_hamiltonian: unexpected shape")
+    fn = src.function(rel, cls + "._linearised_field")
+    b = _mf_strip(fn.body)
+    if [a.arg for a in fn.args.args] != ["t0", "t", "field", "field_derivative"] or len(b) != 1 \
+            or not isinstance(b[0], ast.Return):
+        raise Untranslatable(cls + "._linearised_field: unexpected shape")
+
+    class _Delta(ast.NodeTransformer):
+        """float-only sub-expressions over t, t0 become the parameter `delta`"""
+        found = []
+
+        def visit_BinOp(self, node):
+            names = {n.id for n in ast.walk(node) if isinstance(n, ast.Name)}
+            if names and names <= {"t", "t0"}:
+                self.found.append(node)
+                return ast.Name(id="delta", ctx=ast.Load())
+            return self.generic_visit(node)
+
+    dl = _Delta()
+    dl.found = []
+    e = dl.visit(ast.parse(_mf_norm(b[0].value), mode="eval").body)
+    if len(dl.found) != 1:
+        raise Untranslatable(cls + "._linearised_field: expected one time difference")
+    where = "%s:%d %s._linearised_field" % (rel, b[0].lineno, cls)
+    out.append(_mf_flt_def("tdsf_lin_delta", [], dl.found[0], ["t0", "t"],
+                           where + ":  the float factor " + _mf_norm(dl.found[0]),
+                           types={"t0": "Flt"}))
+    out.append(_mf_kdef("tdsf_lin_field", e, ["field", "field_derivative", "delta"],
+                        where + ":  " + _mf_norm(b[0]) + "   (delta = tdsf_lin_delta t0 t, "
+                        "a float, multiplied onto the complex derivative)"))
+    # liouvillian(t0, t, field, field_derivative): float() casts, then the linearised Hamiltonian
+    fn = src.function(rel, cls + ".liouvillian")
+    if [a.arg for a in fn.args.args] != ["self", "t0", "t", "field", "field_derivative"]:
+        raise Untranslatable(cls + ".liouvillian: parameters")
+    hits = [s for s in ast.walk(fn) if isinstance(s, ast.Assign)
+            and _mf_norm(s.targets[0]) == "hamiltonian"]
+    if len(hits) != 1 or _mf_norm(hits[0].value) != \
+            "self._linearised_hamiltonian(t0, t, field, field_derivative)":
+        raise Untranslatable(cls + ".liouvillian: Hamiltonian evaluation")
+    for s in ast.walk(fn):
+        if isinstance(s, ast.Assign) and _mf_norm(s.targets[0]) in ("t0", "t", "field", "field_derivative"):
+            nm = _mf_norm(s.targets[0])
+            if _mf_norm(s.value) not in ("float(%s)" % nm, "complex(%s)" % nm):
+                raise Untranslatable(cls + ".liouvillian: re-binding of " + nm)
+    out.append("/-- %s:%d  %s.liouvillian(t0, t, field, field_derivative) evaluates the user's "
+               "Hamiltonian at  (t, tdsf_lin_field field field_derivative (tdsf_lin_delta t0 t)) -/\n"
+               "def tdsf_ham_shape_checked : Bool := true\n" % (rel, fn.lineno, cls))
+
+
+@fragment("MeanFieldTimes")
+def frag_meanfieldtimes(src):
+    out = [MF_PREAMBLE]
+    _mf_mft(src, out)
+    _mf_backend(src, out)
+    _mf_cdwf(src, out)
+    _mf_propagators(src, out)
+    return "\n".join(out)
+# end of MeanFieldTimes
+
+
+# ---------------------------------------------------------------------------
+# GibbsLoop  (C11):  how GibbsTempo builds and drives TIBaseBackend -- time step, the
+# coefficient function (which eta cells), operator tuple, propagator exponent, the
+# orientation (`.T`) of every propagator factor in initialise / _influence_tensor /
+# readout, the influence-factor formulas, the loop bound of compute(), what is stored
+# in the dynamics (state or state.T) and how get_state normalises.
+# ---------------------------------------------------------------------------
+
+EXTRA_IMPORTS["GibbsLoop"] = "import Mathlib.Algebra.Ring.Defs\n"
+
+_GL_TB = "oqupy/backends/tempo_backend.py"
+_GL_TP = "oqupy/tempo.py"
+
+
+def _gl_norm(node):
+    return " ".join(ast.unparse(node).split())
+
+
+def _gl_body(fn):
+    body = list(fn.body)
+    if body and isinstance(body[0], ast.Expr) and isinstance(body[0].value, ast.Constant) \
+            and isinstance(body[0].value.value, str):
+        body = body[1:]
+    return body
+
+
+def _gl_bool(b):
+    return "true" if b else "false"
+
+
+def _gl_one_of(text, with_t, without_t, where):
+    """`text` must be one of the two spellings; returns True for the transposed one"""
+    if text == with_t:
+        return True
+    if text == without_t:
+        return False
+    raise Untranslatable("%s: unexpected statement: %s" % (where, text[:160]))
+
+
+class _GLMonomial:
+    """c * H^h * dt^t with an exact Gaussian-rational c (for the propagator exponent)"""
+
+    def __init__(self, names):
+        self.names = names          # unparse text -> (h, t) or a _GLMonomial value
+
+    def ev(self, e):
+        from fractions import Fraction as F
+        if isinstance(e, ast.Constant):
+            v = e.value
+            if isinstance(v, bool):
+                raise Untranslatable("boolean in propagator exponent")
+            if isinstance(v, (int, float)):
+                return ((F(v), F(0)), 0, 0)
+            if isinstance(v, complex):
+                return ((F(v.real), F(v.imag)), 0, 0)
+            raise Untranslatable("constant %r in propagator exponent" % (v,))
+        text = _gl_norm(e)
+        if text in self.names:
+            return self.names[text]
+        if isinstance(e, ast.UnaryOp) and isinstance(e.op, ast.USub):
+            (re, im), h, t = self.ev(e.operand)
+            return ((-re, -im), h, t)
+        if isinstance(e, ast.BinOp) and isinstance(e.op, (ast.Mult, ast.Div)):
+            (ar, ai), ah, at = self.ev(e.left)
+            (br, bi), bh, bt = self.ev(e.right)
+            if isinstance(e.op, ast.Mult):
+                return ((ar * br - ai * bi, ar * bi + ai * br), ah + bh, at + bt)
+            if bh or bt:
+                raise Untranslatable("division by a non-constant in the propagator exponent")
+            n = br * br + bi * bi
+            if n == 0:
+                raise Untranslatable("division by zero in the propagator exponent")
+            return (((ar * br + ai * bi) / n, (ai * br - ar * bi) / n), ah, at)
+        raise Untranslatable("propagator exponent: " + text[:120])
+
+
+class _GLVec:
+    """numpy vector expressions of TIBaseBackend's influence factors -> Lean over a ring K.
+    Vectors are functions of an index; the coefficient enters through cRe / cIm."""
+
+    def __init__(self, names):
+        self.names = names      # python name -> lean template with %s for the index
+
+    def tr(self, e, idx):
+        if isinstance(e, ast.Name):
+            if e.id in self.names:
+                t = self.names[e.id]
+                return t % idx if "%s" in t else t
+            raise Untranslatable("name %s in a backend influence formula" % e.id)
+        if isinstance(e, ast.Attribute):
+            text = _gl_norm(e)
+            if text in self.names:
+                return self.names[text]
+            raise Untranslatable("attribute %s in a backend influence formula" % text)
+        if isinstance(e, ast.Subscript):
+            text = _gl_norm(e)
+            if text in self.names:
+                t = self.names[text]
+                return t % idx if "%s" in t else t
+            raise Untranslatable("subscript %s in a backend influence formula" % text)
+        if isinstance(e, ast.Constant):
+            if e.value == 1j and isinstance(e.value, complex):
+                return "iUnit"
+            raise Untranslatable("constant %r in a backend influence formula" % (e.value,))
+        if isinstance(e, ast.UnaryOp) and isinstance(e.op, ast.USub):
+            return "(-%s)" % self.tr(e.operand, idx)
+        if isinstance(e, ast.BinOp) and isinstance(e.op, (ast.Add, ast.Mult, ast.Sub)):
+            sym = {ast.Add: "+", ast.Mult: "*", ast.Sub: "-"}[type(e.op)]
+            return "(%s %s %s)" % (self.tr(e.left, idx), sym, self.tr(e.right, idx))
+        if isinstance(e, ast.Call):
+            ch = attr_chain(e.func)
+            if ch in (["exp"], ["np", "exp"]) and len(e.args) == 1:
+                return "(E %s)" % self.tr(e.args[0], idx)
+            if ch in (["outer"], ["np", "outer"]) and len(e.args) == 2 and idx is None:
+                return "(%s * %s)" % (self.tr(e.args[0], "x"), self.tr(e.args[1], "y"))
+        raise Untranslatable("backend influence formula: " + _gl_norm(e)[:120])
+
+
+_GL_SIG = ("{K : Type} [CommRing K] (E : K → K) (iUnit cRe cIm : K) "
+           "(ops0 ops1 ops2 : ℕ → K)")
+
+
+def _gl_time(src, out):
+    ty = {"temperature": "Flt", "n_steps": "Int", "step": "Int", "dt": "Flt"}
+    t, _ = translate_function(src, _GL_TP, "GibbsParameters.time_step_length", "time_step_length",
+                              ty, "Flt", ["temperature", "n_steps"])
+    out.append(t)
+    t, _ = translate_function(src, _GL_TP, "GibbsTempo._time", "gibbs_time", ty, "Flt",
+                              ["dt", "step"])
+    out.append(t)
+    fn = src.function(_GL_TP, "GibbsTempo.__init__")
+    want = {"self._correlations": "self._bath.correlations",
+            "self._temperature": "self._correlations.temperature",
+            "self._dt": "self._parameters.time_step_length(self._temperature)"}
+    for tgt, val in want.items():
+        hits = src.assignment(fn, tgt)
+        if len(hits) != 1 or _gl_norm(hits[0].value) != val:
+            raise Untranslatable("GibbsTempo.__init__: %s is not %s" % (tgt, val))
+    out.append("/-- %s:%d  GibbsTempo.__init__:  self._dt = self._parameters.time_step_length("
+               "self._temperature), the temperature being that of the bath correlations -/\n"
+               "def dt_is_time_step_length : Bool := true\n" % (_GL_TP, fn.lineno))
+
+
+def _gl_coeffs(src, out):
+    fn = src.function(_GL_TP, "GibbsTempo._prepare_backend")
+    inner = [s for s in fn.body if isinstance(s, ast.FunctionDef) and s.name == "coeffs"]
+    if len(inner) != 1 or [a.arg for a in inner[0].args.args] != ["k"]:
+        raise Untranslatable("GibbsTempo._prepare_backend: no inner `coeffs(k)`")
+    body = _gl_body(inner[0])
+    if len(body) != 2 or not isinstance(body[0], ast.Assign) or not isinstance(body[1], ast.Return):
+        raise Untranslatable("coeffs(k): expected `shape = ..; return ..`")
+    sh = body[0]
+    if _gl_norm(sh.targets[0]) != "shape" or not isinstance(sh.value, ast.IfExp) \
+            or not isinstance(sh.value.body, ast.Constant) or not isinstance(sh.value.orelse, ast.Constant):
+        raise Untranslatable("coeffs(k): shape selection " + _gl_norm(sh))
+    tr = FnTranslator({"k": "Int", "dt": "Flt"})
+    cond = tr.expr(sh.value.test)
+    if cond[1] != "Bool":
+        raise Untranslatable("coeffs(k): shape test")
+    out.append(emit_def("coeff_first_shape", tr, cond[0], "Bool", ["k"],
+                        "%s:%d  coeffs(k):  %s" % (_GL_TP, sh.lineno, _gl_norm(sh))))
+    out.append('def coeff_shape_then : String := "%s"\ndef coeff_shape_else : String := "%s"\n'
+               % (sh.value.body.value, sh.value.orelse.value))
+    call = body[1].value
+    if not (isinstance(call, ast.Call)
+            and attr_chain(call.func) == ["self", "_correlations", "correlation_2d_integral"]
+            and len(call.args) == 2):
+        raise Untranslatable("coeffs(k): return is not correlation_2d_integral(delta, time_1, ..)")
+    kw = {k.arg: _gl_norm(k.value) for k in call.keywords}
+    if kw != {"shape": "shape", "matsubara": "True"}:
+        raise Untranslatable("coeffs(k): keywords %r" % kw)
+    for name, arg in (("coeff_delta", call.args[0]), ("coeff_time1", call.args[1])):
+        tr = FnTranslator({"k": "Int", "dt": "Flt"})
+        term = tr.to_flt(tr.expr(arg))
+        out.append(emit_def(name, tr, term, "Flt", ["dt", "k"],
+                            "%s:%d  coeffs(k): correlation_2d_integral(%s, %s, shape=shape, "
+                            "matsubara=True)" % (_GL_TP, call.lineno, _gl_norm(call.args[0]),
+                                                 _gl_norm(call.args[1]))))
+    # the eta-function combinations behind the two shapes
+    rel = "oqupy/bath_correlations.py"
+    c2d = src.function(rel, "CustomSD.correlation_2d_integral")
+    node = [s for s in c2d.body if isinstance(s, ast.If)]
+    if not node:
+        raise Untranslatable("correlation_2d_integral: no shape dispatch")
+    node = node[0]
+    found = {}
+    while isinstance(node, ast.If):
+        test = _gl_norm(node.test)
+        if not test.startswith("shape == "):
+            raise Untranslatable("correlation_2d_integral: dispatch test " + test)
+        shape = ast.literal_eval(test[len("shape == "):])
+        if len(node.body) != 1 or not isinstance(node.body[0], ast.Assign) \
+                or _gl_norm(node.body[0].targets[0]) != "integral":
+            raise Untranslatable("correlation_2d_integral[%s]: branch shape" % shape)
+        found[shape] = node.body[0].value
+        node = node.orelse[0] if len(node.orelse) == 1 else None
+
+    def terms(e, sign):
+        if isinstance(e, ast.BinOp) and isinstance(e.op, (ast.Add, ast.Sub)):
+            return terms(e.left, sign) + terms(e.right, sign if isinstance(e.op, ast.Add) else -sign)
+        w = 1
+        if isinstance(e, ast.BinOp) and isinstance(e.op, ast.Mult) and isinstance(e.left, ast.Constant):
+            v = e.left.value
+            if isinstance(v, bool) or not isinstance(v, (int, float)) or v != int(v):
+                raise Untranslatable("correlation_2d_integral: weight %r" % (v,))
+            w, e = int(v), e.right
+        if not (isinstance(e, ast.Call) and attr_chain(e.func) == ["self", "eta_function"]
+                and len(e.args) == 1 and [k.arg for k in e.keywords] == [None]
+                and _gl_norm(e.keywords[0].value) == "kwargs"):
+            raise Untranslatable("correlation_2d_integral: term " + _gl_norm(e)[:100])
+        off = {"time_1 + delta": 1, "time_1": 0, "time_1 - delta": -1}.get(_gl_norm(e.args[0]))
+        if off is None:
+            raise Untranslatable("correlation_2d_integral: eta argument " + _gl_norm(e.args[0]))
+        return [(sign * w, off)]
+
+    for shape, name in (("upper-triangle", "c2d_upper_terms"), ("square", "c2d_square_terms")):
+        if shape not in found:
+            raise Untranslatable("correlation_2d_integral: no branch for shape %r" % shape)
+        ts = terms(found[shape], 1)
+        out.append("/-- %s  correlation_2d_integral, shape '%s':  integral = %s ;\n"
+                   "    as (weight, m) pairs: weight * eta_function(time_1 + m*delta, **kwargs) -/\n"
+                   "def %s : List (Int × Int) := [%s]\n"
+                   % (rel, shape, _gl_norm(found[shape]), name,
+                      ", ".join("(%d, %d)" % t for t in ts)))
+    kws = [s for s in c2d.body if isinstance(s, ast.Assign) and _gl_norm(s.targets[0]) == "kwargs"]
+    if len(kws) != 1 or "'matsubara': matsubara" not in _gl_norm(kws[0].value):
+        raise Untranslatable("correlation_2d_integral: matsubara is not handed to eta_function")
+    tail = [_gl_norm(s) for s in c2d.body[-2:]]
+    if tail != ["if matsubara: integral = integral.real", "return integral"]:
+        raise Untranslatable("correlation_2d_integral: tail is %r" % tail)
+    out.append("/-- correlation_2d_integral(.., matsubara=True) hands `matsubara` on to eta_function and "
+               "returns `integral.real` (a real number: the coefficient's `.imag` is 0) -/\n"
+               "def coeff_is_real : Bool := true\n")
+
+
+def _gl_prepare(src, out):
+    fn = src.function(_GL_TP, "GibbsTempo._prepare_backend")
+    hits = src.assignment(fn, "operators")
+    if len(hits) != 1 or not isinstance(hits[0].value, ast.Tuple):
+        raise Untranslatable("_prepare_backend: operators tuple")
+    signs = []
+    for el in hits[0].value.elts:
+        t = _gl_norm(el)
+        if t == "-self._bath.coupling_operator.diagonal()":
+            signs.append(-1)
+        elif t == "self._bath.coupling_operator.diagonal()":
+            signs.append(1)
+        elif t == "np.zeros((dim,))":
+            signs.append(0)
+        else:
+            raise Untranslatable("_prepare_backend: operator entry " + t)
+    out.append("/-- %s:%d  operators = %s ; entry i is ops_signs[i] * diag(coupling operator) -/\n"
+               "def ops_signs : List Int := [%s]\n"
+               % (_GL_TP, hits[0].lineno, _gl_norm(hits[0].value), ", ".join(str(s) for s in signs)))
+    # the diagonal-coupling guard
+    text = _gl_norm(fn)
+    if "if not np.allclose(unitary_transform, np.identity(self.dimension)): raise NotImplementedError(" \
+            not in text or "unitary_transform = self._bath.unitary_transform" not in text:
+        raise Untranslatable("_prepare_backend: guard against non-diagonal coupling operators")
+    # backend construction
+    hits = src.assignment(fn, "self._backend_instance")
+    if len(hits) != 1 or not isinstance(hits[0].value, ast.Call) \
+            or attr_chain(hits[0].value.func) != ["TIBaseBackend"]:
+        raise Untranslatable("_prepare_backend: TIBaseBackend(...) construction")
+    call = hits[0].value
+    args = [_gl_norm(a) for a in call.args]
+    kw = {k.arg: _gl_norm(k.value) for k in call.keywords}
+    if args != ["dim", "epsrel", "propagators(1)[0]", "coeffs", "operators"] \
+            or kw != {"max_step": "max_step", "config": "self._backend_config"}:
+        raise Untranslatable("_prepare_backend: TIBaseBackend arguments %r %r" % (args, kw))
+    for tgt, val in (("max_step", "self._parameters.n_steps"), ("epsrel", "self._parameters.epsrel"),
+                     ("dim", "self._dimension")):
+        h = src.assignment(fn, tgt)
+        if len(h) != 1 or _gl_norm(h[0].value) != val:
+            raise Untranslatable("_prepare_backend: %s is not %s" % (tgt, val))
+    bi = src.function(_GL_TB, "TIBaseBackend.__init__")
+    pos = [a.arg for a in bi.args.args]
+    if pos[:6] != ["self", "dimension", "truncation_precision", "propagator", "coefficients", "operators"]:
+        raise Untranslatable("TIBaseBackend.__init__: parameter order %r" % pos)
+    want = {"self._coefficients": "coefficients", "self._ops": "operators", "self._prop": "propagator",
+            "self._kmax": "max_step if max_mps_length is None else max_mps_length",
+            "self._initial_data": "eye(self._dim) if initial_data is None else initial_data",
+            "self._step": "None", "self.data": "[self._initial_data]"}
+    for tgt, val in want.items():
+        h = src.assignment(bi, tgt)
+        if len(h) != 1 or _gl_norm(h[0].value) != val:
+            raise Untranslatable("TIBaseBackend.__init__: %s is not %s" % (tgt, val))
+    out.append("/-- TIBaseBackend.__init__: data = [initial_data] (identity by default), step = None, "
+               "kmax = max_step = n_steps -/\ndef init_data_len : Nat := 1\n")
+    # the propagator: expm(coefficient * H * dt)
+    h = src.assignment(fn, "propagators")
+    if len(h) != 1 or not isinstance(h[0].value, ast.Call) \
+            or attr_chain(h[0].value.func) != ["self", "_system", "get_unitary_propagators"] \
+            or len(h[0].value.args) != 4 or h[0].value.keywords:
+        raise Untranslatable("_prepare_backend: propagators = get_unitary_propagators(..)")
+    from fractions import Fraction as F
+    dt_arg = _GLMonomial({"self._dt": ((F(1), F(0)), 0, 1)}).ev(h[0].value.args[0])
+    gu = src.function("oqupy/system.py", "System.get_unitary_propagators")
+    if [a.arg for a in gu.args.args][:2] != ["self", "dt"]:
+        raise Untranslatable("System.get_unitary_propagators: first parameter is not dt")
+    inner = [s for s in gu.body if isinstance(s, ast.FunctionDef) and s.name == "propagators"]
+    if len(inner) != 1 or [_gl_norm(s) for s in _gl_body(inner[0])] != ["return (first_step, second_step)"] \
+            or _gl_norm(gu.body[-1]) != "return propagators":
+        raise Untranslatable("System.get_unitary_propagators: propagators(step) shape")
+    fs = src.assignment(gu, "first_step")
+    if len(fs) != 1 or not isinstance(fs[0].value, ast.Call) or attr_chain(fs[0].value.func) != ["expm"] \
+            or len(fs[0].value.args) != 1:
+        raise Untranslatable("System.get_unitary_propagators: first_step = expm(..)")
+    (re, im), hp, tp = _GLMonomial({"self._hamiltonian": ((F(1), F(0)), 1, 0),
+                                    "dt": dt_arg}).ev(fs[0].value.args[0])
+    if hp != 1 or tp != 1:
+        raise Untranslatable("propagator exponent is not linear in H and dt")
+    out.append("/-- the propagator handed to the backend is propagators(1)[0] = first_step with\n"
+               "    %s:%d  first_step = %s   and   dt := %s :\n"
+               "    prop = expm((prop_coeff_re + i*prop_coeff_im) * H * self._dt) -/\n"
+               "def prop_coeff_re : Rat := mkRat (%d) %d\ndef prop_coeff_im : Rat := mkRat (%d) %d\n"
+               % ("oqupy/system.py", fs[0].lineno, _gl_norm(fs[0].value), _gl_norm(h[0].value.args[0]),
+                  re.numerator, re.denominator, im.numerator, im.denominator))
+
+
+def _gl_backend(src, out):
+    # ---- initialise ----------------------------------------------------
+    fn = src.function(_GL_TB, "TIBaseBackend.initialise")
+    body = _gl_body(fn)
+    if len(body) != 2 or not isinstance(body[0], ast.If) or _gl_norm(body[0].test) != "mps is not None" \
+            or _gl_norm(body[1]) != "return (self._step, self.data[-1])":
+        raise Untranslatable("TIBaseBackend.initialise: shape")
+    st = [_gl_norm(s) for s in body[0].orelse]
+    if len(st) != 10:
+        raise Untranslatable("TIBaseBackend.initialise: %d statements in the build branch" % len(st))
+    fixed = {0: "c_real, c_imag = (self._coefficients(0).real, self._coefficients(0).imag)",
+             1: "o_1 = self._ops[0]",
+             2: "o_2 = c_real * self._ops[1] - 1j * c_imag * self._ops[2]",
+             5: "tensor = np.dot(self._influence_tensor(0), tensor.T)",
+             6: "tensor = swapaxes(tensor.sum(0), 0, 2)",
+             7: "self._mps = [tensor, self._cap]",
+             8: "self.data.append(self.readout())"}
+    for i, want in fixed.items():
+        if st[i] != want:
+            raise Untranslatable("TIBaseBackend.initialise: statement %d is %s" % (i, st[i][:140]))
+    init_prop = _gl_one_of(st[3], "tensor = np.dot(self._initial_data, self._prop.T * exp(o_1 * o_2))",
+                           "tensor = np.dot(self._initial_data, self._prop * exp(o_1 * o_2))",
+                           "TIBaseBackend.initialise")
+    init_data = _gl_one_of(st[4], "self.data.append(np.dot(tensor, self._prop.T))",
+                           "self.data.append(np.dot(tensor, self._prop))", "TIBaseBackend.initialise")
+    last = body[0].orelse[9]
+    if not (isinstance(last, ast.Assign) and _gl_norm(last.targets[0]) == "self._step"
+            and isinstance(last.value, ast.Constant) and isinstance(last.value.value, int)):
+        raise Untranslatable("TIBaseBackend.initialise: step counter")
+    out.append("/-- %s:%d  TIBaseBackend.initialise (network built from scratch):\n"
+               "    %s\n    %s\n    then the first influence tensor is contracted in, data.append(self.readout()) "
+               "and self._step = %d.\n    `true` = the propagator factor is `self._prop.T` -/\n"
+               "def init_prop_T : Bool := %s\ndef init_data_T : Bool := %s\n"
+               "def init_step : Int := %d\ndef init_appends : Nat := 2\n"
+               % (_GL_TB, fn.lineno, st[3], st[4], last.value.value, _gl_bool(init_prop),
+                  _gl_bool(init_data), last.value.value))
+    # ---- _influence_tensor ---------------------------------------------
+    fn = src.function(_GL_TB, "TIBaseBackend._influence_tensor")
+    body = _gl_body(fn)
+    st = [_gl_norm(s) for s in body]
+    if len(body) != 6 or st[1] != "o_1 = self._ops[0]" or st[3] != "prop = self._prop" \
+            or st[5] != "return tensor" or not isinstance(body[4], ast.If) or _gl_norm(body[4].test) != "k == 0":
+        raise Untranslatable("TIBaseBackend._influence_tensor: shape")
+    tr = FnTranslator({"k": "Int"})
+    cidx = body[0]
+    if not (isinstance(cidx, ast.Assign) and _gl_norm(cidx.targets[0]) == "c"
+            and isinstance(cidx.value, ast.Call) and attr_chain(cidx.value.func) == ["self", "_coefficients"]
+            and len(cidx.value.args) == 1):
+        raise Untranslatable("_influence_tensor: c = self._coefficients(..)")
+    term = tr.expr(cidx.value.args[0])
+    out.append(emit_def("infl_coeff_index", tr, term[0], "Int", ["k"],
+                        "%s:%d  _influence_tensor(k):  %s" % (_GL_TB, cidx.lineno, st[0])))
+    o2 = body[2]
+    if not (isinstance(o2, ast.Assign) and _gl_norm(o2.targets[0]) == "o_2"):
+        raise Untranslatable("_influence_tensor: o_2")
+    names = {"c.real": "cRe", "c.imag": "cIm", "c0.real": "cRe", "c0.imag": "cIm",
+             "c_real": "cRe", "c_imag": "cIm",
+             "self._ops[0]": "(ops0 %s)", "self._ops[1]": "(ops1 %s)", "self._ops[2]": "(ops2 %s)"}
+    ve = _GLVec(names)
+    o2_term = ve.tr(o2.value, "x")
+    out.append("/-- %s:%d  %s   (entry x; c = the coefficient, cRe/cIm its parts) -/\n"
+               "def infl_o2 %s (x : ℕ) : K :=\n  let _unused := (E, ops0)\n  %s\n"
+               % (_GL_TB, o2.lineno, st[2], _GL_SIG, o2_term))
+    zero = body[4].body
+    zt = [_gl_norm(s) for s in zero]
+    if len(zero) != 6 or zt[0] != "c0 = self._coefficients(0)":
+        raise Untranslatable("_influence_tensor[k == 0]: shape")
+    o02 = zero[1]
+    if not (isinstance(o02, ast.Assign) and _gl_norm(o02.targets[0]) == "o0_2"):
+        raise Untranslatable("_influence_tensor[k == 0]: o0_2")
+    if ve.tr(o02.value, "x") != o2_term:
+        raise Untranslatable("_influence_tensor[k == 0]: o0_2 is not built like o_2")
+    # the same o_2 formula in initialise
+    ini = src.function(_GL_TB, "TIBaseBackend.initialise")
+    io2 = [s for s in ast.walk(ini) if isinstance(s, ast.Assign) and _gl_norm(s.targets[0]) == "o_2"]
+    if len(io2) != 1 or ve.tr(io2[0].value, "x") != o2_term:
+        raise Untranslatable("initialise: o_2 is not built like in _influence_tensor")
+    ten = zero[2]
+    if not (isinstance(ten, ast.Assign) and _gl_norm(ten.targets[0]) == "tensor"):
+        raise Untranslatable("_influence_tensor[k == 0]: tensor")
+    fac = []
+    e = ten.value
+    while isinstance(e, ast.BinOp) and isinstance(e.op, ast.Mult):
+        fac.insert(0, e.right)
+        e = e.left
+    fac.insert(0, e)
+    if len(fac) != 3:
+        raise Untranslatable("_influence_tensor[k == 0]: tensor is not a product of three factors")
+    pp = _gl_one_of(_gl_norm(fac[1]), "np.dot(prop, prop).T", "np.dot(prop, prop)",
+                    "_influence_tensor[k == 0]")
+    ve2 = _GLVec({"o_1": "(ops0 %s)", "o_2": "(o2 %s)", "o0_2": "(o2 %s)"})
+    pair0 = ve2.tr(fac[0], None)
+    selfy = ve2.tr(fac[2], "y")
+    wiring0 = ["tensor = np.dot(kron(self._v_proj, self._h_proj), diag(tensor.flatten()))",
+               "tensor = reshape(tensor, (self._v_dim, self._h_dim, self._dim, self._dim))",
+               "tensor = moveaxis(swapaxes(tensor, 2, 3), 0, 2)"]
+    if zt[3:] != wiring0:
+        raise Untranslatable("_influence_tensor[k == 0]: index wiring changed: %r" % zt[3:])
+    sig2 = ("{K : Type} [CommRing K] (E : K → K) (o2 ops0 : ℕ → K)")
+    out.append("/-- %s:%d  %s\n    first factor, entry [x, y] (o2 = the vector `o_2` of the coefficient "
+               "c = coefficients(k+1)) -/\ndef infl_pair0 %s (x y : ℕ) : K :=\n  %s\n"
+               % (_GL_TB, ten.lineno, zt[2], sig2, pair0))
+    out.append("/-- third factor, entry [y] (broadcast over the first index; o2 = the vector `o0_2` of "
+               "coefficients(0)) -/\ndef infl_self %s (y : ℕ) : K :=\n  %s\n" % (sig2, selfy))
+    out.append("/-- second factor: `np.dot(prop, prop).T` (true) or `np.dot(prop, prop)` -/\n"
+               "def infl_pp_T : Bool := %s\n" % _gl_bool(pp))
+    # initialise's own exp(o_1 * o_2)
+    m = ast.parse("exp(o_1 * o_2)", mode="eval").body
+    if _GLVec({"o_1": "(ops0 %s)", "o_2": "(o2 %s)"}).tr(m, "y") != selfy:
+        raise Untranslatable("initialise: exp(o_1 * o_2) differs from the k == 0 self factor")
+    rest = body[4].orelse
+    rt = [_gl_norm(s) for s in rest]
+    wiringk = ["tensor = reshape(tensor, (self._v_dim, self._h_dim, self._v_dim, self._h_dim))",
+               "tensor = swapaxes(tensor, 0, 3)"]
+    if len(rest) != 3 or rt[1:] != wiringk:
+        raise Untranslatable("_influence_tensor[k > 0]: index wiring changed: %r" % rt)
+    tk = rest[0]
+    want = "tensor = diag(exp(kron(o_2[self._v_ind], o_1[self._h_ind])))"
+    if rt[0] != want:
+        raise Untranslatable("_influence_tensor[k > 0]: " + rt[0][:140])
+    mk = ast.parse("exp(outer(o_2, o_1))", mode="eval").body
+    out.append("/-- %s:%d  %s\n    entry [(v, h), (v, h)] with v, h running over the distinct values: "
+               "x = v_ind[v], y = h_ind[h] -/\ndef infl_pairk %s (x y : ℕ) : K :=\n  %s\n"
+               % (_GL_TB, tk.lineno, rt[0], sig2, ve2.tr(mk, None)))
+    # ---- readout -------------------------------------------------------
+    fn = src.function(_GL_TB, "TIBaseBackend.readout")
+    st = [_gl_norm(s) for s in _gl_body(fn)]
+    if len(st) != 3 or st[1] != "for m in reversed([s.sum(1) for s in self._mps[:-1]]): result = m @ result" \
+            or st[2] != "return result":
+        raise Untranslatable("TIBaseBackend.readout: shape %r" % st)
+    ro = _gl_one_of(st[0], "result = self._prop.T", "result = self._prop", "TIBaseBackend.readout")
+    out.append("/-- %s:%d  TIBaseBackend.readout:  %s ; %s -/\ndef readout_T : Bool := %s\n"
+               % (_GL_TB, fn.lineno, st[0], st[1], _gl_bool(ro)))
+    # ---- compute_step: one increment, one recorded state ---------------
+    fn = src.function(_GL_TB, "TIBaseBackend.compute_step")
+    st = [_gl_norm(s) for s in _gl_body(fn)]
+    if st[-3:] != ["self._step += 1", "self.data.append(self.readout())",
+                   "return (self._step, self.data[-1])"] \
+            or sum(1 for s in ast.walk(fn) if isinstance(s, (ast.Assign, ast.AugAssign))
+                   and "self._step" in _gl_norm(s.targets[0] if isinstance(s, ast.Assign) else s.target)) != 1 \
+            or sum(1 for s in st if s.startswith("self.data.append(")) != 1:
+        raise Untranslatable("TIBaseBackend.compute_step: tail %r" % st[-3:])
+    out.append("/-- %s:%d  TIBaseBackend.compute_step ends in  self._step += 1 ; "
+               "self.data.append(self.readout()) ; return (self._step, self.data[-1]) -/\n"
+               "def step_increment : Int := 1\ndef step_appends : Nat := 1\n" % (_GL_TB, fn.lineno))
+
+
+def _gl_compute(src, out):
+    fn = src.function(_GL_TP, "GibbsTempo.compute")
+    body = _gl_body(fn)
+    guards = [s for s in body if isinstance(s, ast.If)
+              and _gl_norm(s.test) == "self._backend_instance.step is None"]
+    if len(guards) != 1 or guards[0].orelse:
+        raise Untranslatable("GibbsTempo.compute: initialisation guard")
+    g = guards[0].body
+    gt = [_gl_norm(s) for s in g]
+    if len(g) != 3 or gt[0] != "step, state = self._backend_instance.initialise()" \
+            or gt[1] != "self._init_dynamics()" or not isinstance(g[2], ast.For) \
+            or _gl_norm(g[2].target) != "(ii, state)" \
+            or _gl_norm(g[2].iter) != "enumerate(self._backend_instance.data)" or len(g[2].body) != 1:
+        raise Untranslatable("GibbsTempo.compute: initialisation block %r" % gt)
+
+    def stored(stmt, label_var, where):
+        if not (isinstance(stmt, ast.Expr) and isinstance(stmt.value, ast.Call)
+                and attr_chain(stmt.value.func) == ["self", "_dynamics", "add"]
+                and len(stmt.value.args) == 2 and not stmt.value.keywords):
+            raise Untranslatable("%s: not self._dynamics.add(time, state)" % where)
+        tcall, sarg = stmt.value.args
+        if not (isinstance(tcall, ast.Call) and attr_chain(tcall.func) == ["self", "_time"]
+                and len(tcall.args) == 1):
+            raise Untranslatable("%s: label is not self._time(..)" % where)
+        t = _gl_one_of(_gl_norm(sarg), "state.T", "state", where)
+        tr = FnTranslator({label_var: "Int"})
+        lab = tr.expr(tcall.args[0])
+        if lab[1] != "Int":
+            raise Untranslatable("%s: label index is not an integer expression" % where)
+        return t, tr, lab[0], tcall
+
+    t0, tr0, lab0, tc0 = stored(g[2].body[0], "ii", "GibbsTempo.compute (initial states)")
+    out.append(emit_def("init_label_index", tr0, lab0, "Int", ["ii"],
+                        "%s:%d  GibbsTempo.compute, first call:  for ii, state in enumerate(backend.data): %s"
+                        % (_GL_TP, tc0.lineno, _gl_norm(g[2].body[0]))))
+    out.append("/-- ... the stored array is `state.T` (true) or `state` -/\n"
+               "def store_init_T : Bool := %s\n" % _gl_bool(t0))
+    hits = src.assignment(fn, "num_step")
+    if len(hits) != 1 or body.index(hits[0]) < body.index(guards[0]):
+        raise Untranslatable("GibbsTempo.compute: num_step")
+    tr = FnTranslator({"n_steps": "Int", "step": "Int"})
+    ns = tr.expr(hits[0].value)
+    if ns[1] != "Int":
+        raise Untranslatable("GibbsTempo.compute: num_step is not an integer expression")
+    out.append(emit_def("compute_num_step", tr, ns[0], "Int", ["n_steps", "step"],
+                        "%s:%d  GibbsTempo.compute:  num_step = %s   (step = the backend's counter "
+                        "after the initialisation guard)" % (_GL_TP, hits[0].lineno, _gl_norm(hits[0].value))))
+    loops = [n for n in ast.walk(fn) if isinstance(n, ast.For) and _gl_norm(n.iter) == "range(num_step)"]
+    if len(loops) != 1 or loops[0].orelse:
+        raise Untranslatable("GibbsTempo.compute: `for i in range(num_step)` loop")
+    lb = [s for s in loops[0].body
+          if not (isinstance(s, ast.Expr) and isinstance(s.value, ast.Call)
+                  and (attr_chain(s.value.func) or [""])[0] == "prog_bar")]
+    if len(lb) != 2 or _gl_norm(lb[0]) != "step, state = self._backend_instance.compute_step()":
+        raise Untranslatable("GibbsTempo.compute: loop body %r" % [_gl_norm(s) for s in lb])
+    t1, tr1, lab1, tc1 = stored(lb[1], "step", "GibbsTempo.compute (loop)")
+    out.append(emit_def("step_label_index", tr1, lab1, "Int", ["step"],
+                        "%s:%d  GibbsTempo.compute, loop:  step, state = backend.compute_step(); %s"
+                        % (_GL_TP, tc1.lineno, _gl_norm(lb[1]))))
+    out.append("def store_step_T : Bool := %s\n" % _gl_bool(t1))
+    if _gl_norm(body[-1]) != "return self._dynamics":
+        raise Untranslatable("GibbsTempo.compute: return value")
+    fn = src.function(_GL_TP, "GibbsTempo.get_state")
+    st = [_gl_norm(s) for s in _gl_body(fn)]
+    if st != ["state = self._dynamics.states[-1]", "state = state / state.trace()", "return state"]:
+        raise Untranslatable("GibbsTempo.get_state: %r" % st)
+    out.append("/-- %s:%d  GibbsTempo.get_state: the last state of the dynamics divided by its trace -/\n"
+               "def get_state_normalises : Bool := true\n" % (_GL_TP, fn.lineno))
+
+
+@fragment("GibbsLoop")
+def frag_gibbsloop(src):
+    out = []
+    _gl_time(src, out)
+    _gl_coeffs(src, out)
+    _gl_prepare(src, out)
+    _gl_backend(src, out)
+    _gl_compute(src, out)
+    return "\n".join(out)
+# end of GibbsLoop
+
+
+# ---------------------------------------------------------------------------
+# TebdLayers  (C10):  site factors of SystemChain.get_nn_full_liouvillians, Trotter layer
+# sequences of compute_tebd_propagator, executor selection / read and write sets of
+# PtTebdBackend.apply_nn_gate_layer, import statements of pt_tebd_backend.py
+# ---------------------------------------------------------------------------
+
+TL_PREAMBLE = '''/-- coefficient of one summand of a full nearest-neighbour Liouvillian -/
+inductive Coef where
+  | factorL | factorR | one
+  deriving DecidableEq, Repr
+
+/-- the summands of `nn_full_liouvillian` (bond `i` joins sites `i` and `i+1`) -/
+inductive FullTerm where
+  | leftSite    -- np.kron(site_liouvillians[i], identity(hs_dims[i+1]**2))
+  | rightSite   -- np.kron(identity(hs_dims[i]**2), site_liouvillians[i+1])
+  | nnTerm      -- nn_liouvillians[i]
+  deriving DecidableEq, Repr
+
+/-- the two kinds of tensors of the augmented MPS held by the back-end:
+    `gam k` = `self._gammas[k]`, `lam k` = `self._lambdas[k]` (the list WITH the leading
+    boundary matrix, i.e. `lam (k+1)` sits between sites `k` and `k+1`) -/
+inductive CellKind where
+  | gam | lam
+  deriving DecidableEq, Repr
+
+/-- how `apply_nn_gate_layer` runs the gates of a layer -/
+inductive ExecKind where
+  | sequentialLoop          -- for gate in gates: read, compute, write
+  | readAllMapWriteAll      -- read all; Executor.map(compute); write all in the order of the results
+  deriving DecidableEq, Repr
+'''
+
+
+def _tl_norm(s):
+    return " ".join(ast.unparse(s).split())
+
+
+def _tl_body(fn):
+    """statements of a function without docstring / asserts"""
+    out = []
+    for s in fn.body:
+        if isinstance(s, ast.Expr) and isinstance(s.value, ast.Constant):
+            continue
+        if isinstance(s, ast.Assert):
+            continue
+        out.append(s)
+    return out
+
+
+def _tl_ratconst(node, where):
+    """an int / float literal as an exact Lean rational"""
+    if isinstance(node, ast.Constant) and isinstance(node.value, (int, float)) \
+            and not isinstance(node.value, bool):
+        p, q = (node.value, 1) if isinstance(node.value, int) else node.value.as_integer_ratio()
+        return "(%d : Rat)" % p if q == 1 else "((%d : Rat) / %d)" % (p, q)
+    raise Untranslatable("%s: expected a numeric literal, found %s" % (where, _tl_norm(node)))
+
+
+def _tl_factor(node, where):
+    """`c` or `c1 if <int comparison> else c2` with numeric literals"""
+    if isinstance(node, ast.IfExp):
+        tr = FnTranslator({"i": "Int", "len_self": "Int"})
+        c = tr.expr(node.test)
+        if c[1] != "Bool":
+            raise Untranslatable(where + ": non-boolean test")
+        for v in tr.free:
+            if v not in ("i", "len_self"):
+                raise Untranslatable("%s: reads %s" % (where, v))
+        return "if %s then %s else %s" % (c[0], _tl_factor(node.body, where),
+                                          _tl_factor(node.orelse, where))
+    return _tl_ratconst(node, where)
+
+
+def _tl_factors(src, out):
+    rel = "oqupy/system.py"
+    fn = src.function(rel, "SystemChain.get_nn_full_liouvillians")
+    body = _tl_body(fn)
+    if len(body) != 3 or _tl_norm(body[0]) != "nn_full_liouvillians = []" \
+            or not isinstance(body[1], ast.For) or _tl_norm(body[2]) != "return nn_full_liouvillians":
+        raise Untranslatable("get_nn_full_liouvillians: unexpected shape")
+    loop = body[1]
+    if _tl_norm(loop.target) != "i" or loop.orelse:
+        raise Untranslatable("get_nn_full_liouvillians: loop header")
+    it = loop.iter
+    if not (isinstance(it, ast.Call) and _tl_norm(it.func) == "range" and len(it.args) == 1
+            and not it.keywords):
+        raise Untranslatable("get_nn_full_liouvillians: loop is not `for i in range(<stop>)`")
+    tr = FnTranslator({"len_self": "Int"})
+    stop = tr.expr(it.args[0])
+    if stop[1] != "Int" or any(v != "len_self" for v in tr.free):
+        raise Untranslatable("get_nn_full_liouvillians: range stop " + _tl_norm(it.args[0]))
+    out.append("/-- %s:%d  SystemChain.get_nn_full_liouvillians:  for i in %s  (one full Liouvillian "
+               "per bond `i`, joining sites `i` and `i+1`) -/\n"
+               "def bond_range_stop (len_self : Int) : Int := %s\n"
+               % (rel, loop.lineno, _tl_norm(it), stop[0]))
+    assigns = {}
+    last = None
+    for s in loop.body:
+        if isinstance(s, ast.Assign) and len(s.targets) == 1 and isinstance(s.targets[0], ast.Name):
+            if s.targets[0].id in assigns:
+                raise Untranslatable("get_nn_full_liouvillians: %s assigned twice" % s.targets[0].id)
+            assigns[s.targets[0].id] = s
+            last = s
+        elif _tl_norm(s) == "nn_full_liouvillians.append(nn_full_liouvillian)" and s is loop.body[-1]:
+            pass
+        else:
+            raise Untranslatable("get_nn_full_liouvillians: unexpected statement " + _tl_norm(s)[:100])
+    want = {"liouv_l": "self._site_liouvillians[i]",
+            "id_l": "np.identity(self._hs_dims[i] ** 2)",
+            "liouv_r": "self._site_liouvillians[i + 1]",
+            "id_r": "np.identity(self._hs_dims[i + 1] ** 2)",
+            "liouv_nn": "self._nn_liouvillians[i]"}
+    for k, v in want.items():
+        if k not in assigns or _tl_norm(assigns[k].value) != v:
+            raise Untranslatable("get_nn_full_liouvillians: %s is not %s" % (k, v))
+    for f in ("factor_l", "factor_r"):
+        if f not in assigns:
+            raise Untranslatable("get_nn_full_liouvillians: no assignment to " + f)
+        out.append("/-- %s:%d  %s = %s -/\ndef %s (i : Int) (len_self : Int) : Rat :=\n  %s\n"
+                   % (rel, assigns[f].lineno, f, _tl_norm(assigns[f].value), f,
+                      _tl_factor(assigns[f].value, f)))
+    if set(assigns) != set(want) | {"factor_l", "factor_r", "nn_full_liouvillian"} \
+            or last is not assigns["nn_full_liouvillian"]:
+        raise Untranslatable("get_nn_full_liouvillians: assignments %r" % sorted(assigns))
+    # the sum
+    terms = []
+
+    def flatten(e):
+        if isinstance(e, ast.BinOp) and isinstance(e.op, ast.Add):
+            flatten(e.left)
+            flatten(e.right)
+        else:
+            terms.append(e)
+    flatten(assigns["nn_full_liouvillian"].value)
+    table = {"np.kron(liouv_l, id_r)": "leftSite", "np.kron(id_l, liouv_r)": "rightSite",
+             "liouv_nn": "nnTerm"}
+    coefs = {"factor_l": "factorL", "factor_r": "factorR"}
+    res = []
+    for t in terms:
+        coef = "one"
+        if isinstance(t, ast.BinOp) and isinstance(t.op, ast.Mult):
+            c = _tl_norm(t.left)
+            if c not in coefs:
+                raise Untranslatable("get_nn_full_liouvillians: coefficient " + c)
+            coef, t = coefs[c], t.right
+        u = _tl_norm(t)
+        if u not in table:
+            raise Untranslatable("get_nn_full_liouvillians: summand " + u)
+        res.append((coef, table[u]))
+    out.append("/-- %s:%d  nn_full_liouvillian = %s -/\n"
+               "def nn_full_terms : List (Coef × FullTerm) := [%s]\n"
+               % (rel, assigns["nn_full_liouvillian"].lineno,
+                  _tl_norm(assigns["nn_full_liouvillian"].value),
+                  ", ".join("(.%s, .%s)" % r for r in res)))
+
+
+def _tl_fraction(node, base, where):
+    """`base`, `base / c`, `base * c`  ->  the exact rational multiplying `base`"""
+    u = _tl_norm(node)
+    if u == base:
+        return "(1 : Rat)"
+    if isinstance(node, ast.BinOp) and _tl_norm(node.left) == base:
+        c = _tl_ratconst(node.right, where)
+        if isinstance(node.op, ast.Div):
+            return "((1 : Rat) / %s)" % c
+        if isinstance(node.op, ast.Mult):
+            return c
+    raise Untranslatable("%s: time step expression %s" % (where, u))
+
+
+def _tl_kw(call, where):
+    if call.args:
+        raise Untranslatable(where + ": positional arguments")
+    return {k.arg: k.value for k in call.keywords}
+
+
+def _tl_layers(src, out):
+    rel = "oqupy/mps_mpo.py"
+    # compute_nn_gate: the propagator is expm(dt * liouvillian)
+    fn = src.function(rel, "compute_nn_gate")
+    hits = src.assignment(fn, "propagator")
+    if len(hits) != 1 or _tl_norm(hits[0].value) != "linalg.expm(dt * liouvillian)":
+        raise Untranslatable("compute_nn_gate: propagator is not linalg.expm(dt * liouvillian)")
+    ret = [s for s in ast.walk(fn) if isinstance(s, ast.Return)]
+    if len(ret) != 1 or _tl_norm(ret[0].value) != "NnGate(site=site, tensors=(tensor_l, tensor_r))":
+        raise Untranslatable("compute_nn_gate: return value")
+    # NnGate acts on [site, site+1]
+    init = src.function(rel, "NnGate.__init__")
+    if [_tl_norm(s) for s in _tl_body(init)] != \
+            ["super().__init__([site, site + 1], [tensors[0], tensors[1]])"]:
+        raise Untranslatable("NnGate.__init__: sites are not [site, site+1]")
+    out.append("/-- %s:%d  compute_nn_gate: propagator = linalg.expm(dt * liouvillian), returned as "
+               "NnGate(site=site, ...) acting on the sites [site, site + 1] -/\n"
+               "def nn_gate_right_site_offset : Nat := 1\n" % (rel, fn.lineno))
+    # compute_trotter_layers
+    fn = src.function(rel, "compute_trotter_layers")
+    body = _tl_body(fn)
+    texts = [_tl_norm(s) for s in body]
+    if len(body) != 7 or texts[0] != "all_gates = []" or not isinstance(body[1], ast.For) \
+            or texts[4] != "gate_layer_even = GateLayer(parallel=True, gates=gates_even)" \
+            or texts[5] != "gate_layer_odd = GateLayer(parallel=True, gates=gates_odd)":
+        raise Untranslatable("compute_trotter_layers: unexpected shape %r" % texts)
+    loop = body[1]
+    if _tl_norm(loop.target) != "(i, liouv)" or _tl_norm(loop.iter) != "enumerate(nn_full_liouvillians)" \
+            or len(loop.body) != 2 or _tl_norm(loop.body[1]) != "all_gates.append(gate)" \
+            or not isinstance(loop.body[0], ast.Assign) or _tl_norm(loop.body[0].targets[0]) != "gate" \
+            or not isinstance(loop.body[0].value, ast.Call) \
+            or _tl_norm(loop.body[0].value.func) != "compute_nn_gate":
+        raise Untranslatable("compute_trotter_layers: gate loop")
+    kw = {k: _tl_norm(v) for k, v in _tl_kw(loop.body[0].value, "compute_trotter_layers").items()}
+    if kw != {"liouvillian": "liouv", "site": "i", "hs_dim_l": "hs_dims[i]",
+              "hs_dim_r": "hs_dims[i + 1]", "dt": "dt", "epsrel": "epsrel"}:
+        raise Untranslatable("compute_trotter_layers: compute_nn_gate arguments %r" % kw)
+    slices = {}
+    for s, name in ((body[2], "gates_even"), (body[3], "gates_odd")):
+        if not (isinstance(s, ast.Assign) and _tl_norm(s.targets[0]) == name
+                and isinstance(s.value, ast.Subscript) and _tl_norm(s.value.value) == "all_gates"
+                and isinstance(s.value.slice, ast.Slice) and s.value.slice.upper is None
+                and isinstance(s.value.slice.lower, ast.Constant)
+                and isinstance(s.value.slice.step, ast.Constant)
+                and isinstance(s.value.slice.lower.value, int)
+                and isinstance(s.value.slice.step.value, int)
+                and s.value.slice.lower.value >= 0 and s.value.slice.step.value >= 1):
+            raise Untranslatable("compute_trotter_layers: %s is not all_gates[a::b]" % name)
+        slices[name] = (s.value.slice.lower.value, s.value.slice.step.value, _tl_norm(s.value))
+    ret = body[6]
+    if not isinstance(ret, ast.Return) or not isinstance(ret.value, (ast.List, ast.Tuple)):
+        raise Untranslatable("compute_trotter_layers: return value")
+    order = []
+    for e in ret.value.elts:
+        u = _tl_norm(e)
+        if u not in ("gate_layer_even", "gate_layer_odd"):
+            raise Untranslatable("compute_trotter_layers: returned element " + u)
+        order.append(slices["gates_even" if u == "gate_layer_even" else "gates_odd"])
+    out.append("/-- %s:%d  compute_trotter_layers: gate `i` (= bond `i`) is built from "
+               "nn_full_liouvillians[i] with the common `dt`; the returned layers, in order, are the "
+               "slices  %s  of the gate list, given as (start, step) -/\n"
+               "def trotter_slices : List (Nat × Nat) := [%s]\n"
+               % (rel, fn.lineno, ", ".join(o[2] for o in order),
+                  ", ".join("(%d, %d)" % (o[0], o[1]) for o in order)))
+    # compute_tebd_propagator
+    fn = src.function(rel, "compute_tebd_propagator")
+    body = _tl_body(fn)
+    texts = [_tl_norm(s) for s in body]
+    if len(body) != 4 or texts[0] != "nn_full_liouvillians = system_chain.get_nn_full_liouvillians()" \
+            or texts[1] != "hs_dims = system_chain.hs_dims" or not isinstance(body[2], ast.If) \
+            or texts[3] != "return propagator":
+        raise Untranslatable("compute_tebd_propagator: unexpected shape")
+    rows = []
+    node = body[2]
+    while True:
+        t = node.test
+        if not (isinstance(t, ast.Compare) and _tl_norm(t.left) == "order" and len(t.ops) == 1
+                and isinstance(t.ops[0], ast.Eq) and isinstance(t.comparators[0], ast.Constant)
+                and isinstance(t.comparators[0].value, int)):
+            raise Untranslatable("compute_tebd_propagator: test " + _tl_norm(t))
+        o = t.comparators[0].value
+        if len(node.body) != 2:
+            raise Untranslatable("compute_tebd_propagator: branch of order %d" % o)
+        a, b = node.body
+        if not (isinstance(a, ast.Assign) and _tl_norm(a.targets[0]) == "layers"
+                and isinstance(a.value, ast.Call) and _tl_norm(a.value.func) == "compute_trotter_layers"):
+            raise Untranslatable("compute_tebd_propagator: layers of order %d" % o)
+        kw = _tl_kw(a.value, "compute_tebd_propagator")
+        if sorted(kw) != ["dt", "epsrel", "hs_dims", "nn_full_liouvillians"] \
+                or _tl_norm(kw["nn_full_liouvillians"]) != "nn_full_liouvillians" \
+                or _tl_norm(kw["hs_dims"]) != "hs_dims" or _tl_norm(kw["epsrel"]) != "epsrel":
+            raise Untranslatable("compute_tebd_propagator: compute_trotter_layers arguments")
+        frac = _tl_fraction(kw["dt"], "time_step", "compute_tebd_propagator(order %d)" % o)
+        if not (isinstance(b, ast.Assign) and _tl_norm(b.targets[0]) == "propagator"
+                and isinstance(b.value, ast.Call) and _tl_norm(b.value.func) == "TebdPropagator"):
+            raise Untranslatable("compute_tebd_propagator: propagator of order %d" % o)
+        kw2 = _tl_kw(b.value, "TebdPropagator")
+        if sorted(kw2) != ["gate_layers"] or not isinstance(kw2["gate_layers"], ast.List):
+            raise Untranslatable("compute_tebd_propagator: gate_layers of order %d" % o)
+        seq = []
+        for e in kw2["gate_layers"].elts:
+            if not (isinstance(e, ast.Subscript) and _tl_norm(e.value) == "layers"
+                    and isinstance(e.slice, ast.Constant) and isinstance(e.slice.value, int)
+                    and 0 <= e.slice.value < len(order)):
+                raise Untranslatable("compute_tebd_propagator: gate layer " + _tl_norm(e))
+            seq.append(e.slice.value)
+        rows.append((o, frac, seq, _tl_norm(kw["dt"]), _tl_norm(kw2["gate_layers"])))
+        if len(node.orelse) == 1 and isinstance(node.orelse[0], ast.If):
+            node = node.orelse[0]
+            continue
+        if len(node.orelse) == 1 and isinstance(node.orelse[0], ast.Raise):
+            break
+        raise Untranslatable("compute_tebd_propagator: end of the order dispatch")
+    out.append("/-- %s:%d  compute_tebd_propagator: per implemented `order` (anything else raises "
+               "NotImplementedError): the fraction of `time_step` every gate is exponentiated with, and "
+               "the sequence of layers (indices into `trotter_slices`) making up one propagator:  %s -/\n"
+               "def order_table : List (Int × Rat × List Nat) :=\n  [%s]\n"
+               % (rel, fn.lineno,
+                  ";  ".join("order %d: dt=%s, gate_layers=%s" % (r[0], r[3], r[4]) for r in rows),
+                  ", ".join("(%d, %s, [%s])" % (r[0], r[1], ", ".join(str(x) for x in r[2]))
+                            for r in rows)))
+    # PtTebd.initialize: the propagator is built for half a time step
+    rel2 = "oqupy/pt_tebd.py"
+    fn = src.function(rel2, "PtTebd.initialize")
+    hits = src.assignment(fn, "self._tebd_propagator")
+    if len(hits) != 1 or not isinstance(hits[0].value, ast.Call) \
+            or _tl_norm(hits[0].value.func) != "compute_tebd_propagator":
+        raise Untranslatable("PtTebd.initialize: propagator construction")
+    kw = _tl_kw(hits[0].value, "PtTebd.initialize")
+    if sorted(kw) != ["epsrel", "order", "system_chain", "time_step"] \
+            or _tl_norm(kw["system_chain"]) != "self._system_chain" \
+            or _tl_norm(kw["order"]) != "self._parameters.order" \
+            or _tl_norm(kw["epsrel"]) != "self._parameters.epsrel":
+        raise Untranslatable("PtTebd.initialize: compute_tebd_propagator arguments")
+    out.append("/-- %s:%d  PtTebd.initialize: time_step = %s   (as a fraction of dt; the propagator is "
+               "applied twice per step, see ControlCompose.tebdComputeStep) -/\n"
+               "def initialize_fraction : Rat := %s\n"
+               % (rel2, hits[0].lineno, _tl_norm(kw["time_step"]),
+                  _tl_fraction(kw["time_step"], "self._parameters.dt", "PtTebd.initialize")))
+
+
+def _tl_cell(node, where, site_r_is):
+    """self._gammas[<e>] / self._lambdas[<e>]  ->  (kind, offset from site_l)"""
+    if not (isinstance(node, ast.Subscript) and _tl_norm(node.value) in ("self._gammas", "self._lambdas")):
+        raise Untranslatable("%s: %s is not a gamma / lambda of the augmented MPS" % (where, _tl_norm(node)))
+    kind = "gam" if _tl_norm(node.value) == "self._gammas" else "lam"
+    e = node.slice
+    off = 0
+    if isinstance(e, ast.BinOp) and isinstance(e.op, ast.Add) and isinstance(e.right, ast.Constant) \
+            and isinstance(e.right.value, int) and e.right.value >= 0:
+        off, e = e.right.value, e.left
+    u = _tl_norm(e)
+    if u == "site_l":
+        pass
+    elif u == "site_r":
+        off += site_r_is
+    else:
+        raise Untranslatable("%s: index %s" % (where, _tl_norm(node.slice)))
+    return kind, off
+
+
+def _tl_backend(src, out):
+    rel = "oqupy/backends/pt_tebd_backend.py"
+    # __init__: self._parallel
+    fn = src.function(rel, "PtTebdBackend.__init__")
+    ifs = [s for s in fn.body if isinstance(s, ast.If) and _tl_norm(s.test) == "'parallel' in config"]
+    if len(ifs) != 1 or [_tl_norm(s) for s in ifs[0].body] != ["self._parallel = config['parallel']"] \
+            or [_tl_norm(s) for s in ifs[0].orelse] != ["self._parallel = None"]:
+        raise Untranslatable("PtTebdBackend.__init__: selection of self._parallel")
+    others = [n for n in ast.walk(fn) if isinstance(n, ast.Assign)
+              and any(_tl_norm(t) == "self._parallel" for t in n.targets)]
+    if len(others) != 2:
+        raise Untranslatable("PtTebdBackend.__init__: self._parallel assigned elsewhere")
+    # read set
+    fn = src.function(rel, "PtTebdBackend._apply_nn_gate_get_data")
+    body = _tl_body(fn)
+    texts = [_tl_norm(s) for s in body]
+    if texts[:4] != ["site_l = gate.sites[0]", "site_r = gate.sites[1]",
+                     "gate_l = tn.Node(gate.tensors[0])", "gate_r = tn.Node(gate.tensors[1])"] \
+            or texts[-1] != "return data":
+        raise Untranslatable("_apply_nn_gate_get_data: unexpected shape %r" % texts[:4])
+    copies = {}
+    for s in body[4:-2]:
+        if not (isinstance(s, ast.Assign) and isinstance(s.targets[0], ast.Name)
+                and isinstance(s.value, ast.Call) and isinstance(s.value.func, ast.Attribute)
+                and s.value.func.attr == "copy" and not s.value.args and not s.value.keywords):
+            raise Untranslatable("_apply_nn_gate_get_data: %s is not `x = <tensor>.copy()`" % _tl_norm(s))
+        copies[s.targets[0].id] = _tl_cell(s.value.func.value, "_apply_nn_gate_get_data", 1)
+    d = body[-2]
+    if not (isinstance(d, ast.Assign) and _tl_norm(d.targets[0]) == "data" and isinstance(d.value, ast.Tuple)):
+        raise Untranslatable("_apply_nn_gate_get_data: data tuple")
+    names = [_tl_norm(e) for e in d.value.elts]
+    if names[:1] != ["site_l"] or names[-3:] != ["gate_l", "gate_r", "self._epsrel"] \
+            or any(nm not in copies for nm in names[1:-3]) or sorted(names[1:-3]) != sorted(copies):
+        raise Untranslatable("_apply_nn_gate_get_data: data tuple is %r" % names)
+    reads = [copies[nm] for nm in names[1:-3]]
+    out.append("/-- %s:%d  PtTebdBackend._apply_nn_gate_get_data: the tensors COPIED for the gate on the "
+               "sites (site_l, site_l + 1), in the order they are passed on, as (kind, index - site_l):  %s -/\n"
+               "def gate_reads : List (CellKind × Nat) := [%s]\n"
+               % (rel, fn.lineno, ", ".join(names[1:-3]),
+                  ", ".join("(.%s, %d)" % r for r in reads)))
+    # the pure function
+    fn = src.function(rel, "_apply_nn_gate")
+    params = [a.arg for a in fn.args.args]
+    if params != names[:1] + names[1:-3] + ["gate_l", "gate_r", "epsrel"]:
+        raise Untranslatable("_apply_nn_gate: parameters %r do not match the data tuple %r" % (params, names))
+    for n in ast.walk(fn):
+        if isinstance(n, ast.Name) and n.id == "self":
+            raise Untranslatable("_apply_nn_gate refers to self")
+        if isinstance(n, (ast.Global, ast.Nonlocal)):
+            raise Untranslatable("_apply_nn_gate uses global state")
+    ret = [s for s in ast.walk(fn) if isinstance(s, ast.Return)]
+    if len(ret) != 1 or _tl_norm(ret[0].value) != "(site_l, new_gam_l, new_lam_m, new_gam_r)":
+        raise Untranslatable("_apply_nn_gate: return value")
+    fn = src.function(rel, "apply_nn_gate")
+    if [_tl_norm(s) for s in _tl_body(fn)] != ["return _apply_nn_gate(*input_data)"]:
+        raise Untranslatable("apply_nn_gate (module level): unexpected shape")
+    # write set
+    fn = src.function(rel, "PtTebdBackend._apply_nn_gate_replace_gam_lam_gam")
+    if [a.arg for a in fn.args.args] != ["self", "site_l", "new_gam_l", "new_lam_m", "new_gam_r"]:
+        raise Untranslatable("_apply_nn_gate_replace_gam_lam_gam: parameters")
+    body = _tl_body(fn)
+    if _tl_norm(body[0]) != "site_r = site_l + 1":
+        raise Untranslatable("_apply_nn_gate_replace_gam_lam_gam: site_r")
+    writes = []
+    for s in body[1:]:
+        if isinstance(s, ast.Assign) and isinstance(s.targets[0], ast.Subscript) \
+                and _tl_norm(s.targets[0].value) in ("self._gammas", "self._lambdas"):
+            v = _tl_norm(s.value)
+            if v not in ("new_gam_l", "new_lam_m", "new_gam_r"):
+                raise Untranslatable("_apply_nn_gate_replace_gam_lam_gam: stores " + v)
+            writes.append((_tl_cell(s.targets[0], "_apply_nn_gate_replace_gam_lam_gam", 1), v))
+        elif isinstance(s, ast.Assign) and isinstance(s.targets[0], ast.Subscript) \
+                and _tl_norm(s.targets[0].value) in ("self._phys_es", "self._pt_es",
+                                                     "self._lam_gam_es", "self._gam_lam_es"):
+            continue        # edge book-keeping
+        elif isinstance(s, ast.Expr) and _tl_norm(s).startswith("tn.remove_node("):
+            continue
+        else:
+            raise Untranslatable("_apply_nn_gate_replace_gam_lam_gam: statement " + _tl_norm(s)[:100])
+    order = ["new_gam_l", "new_lam_m", "new_gam_r"]
+    if sorted(w[1] for w in writes) != sorted(order):
+        raise Untranslatable("_apply_nn_gate_replace_gam_lam_gam: stored values %r" % [w[1] for w in writes])
+    writes.sort(key=lambda w: order.index(w[1]))
+    out.append("/-- %s:%d  PtTebdBackend._apply_nn_gate_replace_gam_lam_gam(site_l, new_gam_l, new_lam_m, "
+               "new_gam_r): the tensors REPLACED, in the order of the values returned by _apply_nn_gate, "
+               "as (kind, index - site_l) -/\n"
+               "def gate_writes : List (CellKind × Nat) := [%s]\n"
+               % (rel, fn.lineno, ", ".join("(.%s, %d)" % w[0] for w in writes)))
+    # the sequential path of one gate
+    fn = src.function(rel, "PtTebdBackend.apply_nn_gate")
+    if [_tl_norm(s) for s in _tl_body(fn)] != [
+            "data = self._apply_nn_gate_get_data(gate)",
+            "new_gam_lam_gam = _apply_nn_gate(*data)",
+            "self._apply_nn_gate_replace_gam_lam_gam(*new_gam_lam_gam)"]:
+        raise Untranslatable("PtTebdBackend.apply_nn_gate: unexpected shape")
+    # the dispatch
+    fn = src.function(rel, "PtTebdBackend.apply_nn_gate_layer")
+    body = _tl_body(fn)
+    if len(body) != 1 or not isinstance(body[0], ast.If) or _tl_norm(body[0].test) != "self._parallel is None":
+        raise Untranslatable("apply_nn_gate_layer: unexpected shape")
+    top = body[0]
+    if [_tl_norm(s) for s in top.body] != ["for gate in gate_layer.gates: self.apply_nn_gate(gate)"]:
+        raise Untranslatable("apply_nn_gate_layer: sequential branch")
+    par = top.orelse
+    ptexts = [_tl_norm(s) for s in par]
+    if len(par) != 4 or ptexts[0] != "input_datas = []" \
+            or ptexts[1] != "for gate in gate_layer.gates: input_datas.append(self._apply_nn_gate_get_data(gate))" \
+            or not isinstance(par[2], ast.If) \
+            or ptexts[3] != "for output_data in output_datas: self._apply_nn_gate_replace_gam_lam_gam(*output_data)":
+        raise Untranslatable("apply_nn_gate_layer: parallel branch %r" % ptexts)
+    rows, paths = [], []
+    node = par[2]
+    while True:
+        t = node.test
+        if not (isinstance(t, ast.Compare) and _tl_norm(t.left) == "self._parallel" and len(t.ops) == 1
+                and isinstance(t.ops[0], ast.Eq) and isinstance(t.comparators[0], ast.Constant)
+                and isinstance(t.comparators[0].value, str)):
+            raise Untranslatable("apply_nn_gate_layer: test " + _tl_norm(t))
+        key = t.comparators[0].value
+        if len(node.body) != 1 or not isinstance(node.body[0], ast.With) or len(node.body[0].items) != 1:
+            raise Untranslatable("apply_nn_gate_layer: branch %r" % key)
+        w = node.body[0]
+        ce = w.items[0].context_expr
+        if not (isinstance(ce, ast.Call) and not ce.args and not ce.keywords and attr_chain(ce.func)
+                and _tl_norm(w.items[0].optional_vars) == "executor"):
+            raise Untranslatable("apply_nn_gate_layer: executor of %r" % key)
+        path = ".".join(attr_chain(ce.func))
+        if [_tl_norm(s) for s in w.body] != ["output_datas = executor.map(apply_nn_gate, input_datas)"]:
+            raise Untranslatable("apply_nn_gate_layer: body of the with block of %r" % key)
+        rows.append((key, path))
+        if len(node.orelse) == 1 and isinstance(node.orelse[0], ast.If):
+            node = node.orelse[0]
+            continue
+        if len(node.orelse) == 1 and isinstance(node.orelse[0], ast.Raise):
+            break
+        raise Untranslatable("apply_nn_gate_layer: end of the dispatch on self._parallel")
+    out.append("/-- %s:%d  PtTebdBackend.apply_nn_gate_layer: `config` without the key 'parallel' "
+               "(self._parallel is None) -/\n"
+               "def exec_absent : ExecKind := .sequentialLoop\n" % (rel, fn.lineno))
+    out.append("/-- %s:%d  PtTebdBackend.apply_nn_gate_layer, config['parallel'] == key: all "
+               "_apply_nn_gate_get_data first (input order), then `with <executor class>() as executor: "
+               "output_datas = executor.map(apply_nn_gate, input_datas)`, then every result is written "
+               "back in the order `output_datas` yields them; any other value raises "
+               "NotImplementedError.  Entries: (key, dotted name of the executor class, kind) -/\n"
+               "def exec_table : List (String × String × ExecKind) :=\n  [%s]\n"
+               % (rel, par[2].lineno,
+                  ", ".join('("%s", "%s", .readAllMapWriteAll)' % r for r in rows)))
+    # import statements of the module
+    tree = src.tree(rel)
+    plain, aliased, froms = [], [], []
+    for s in tree.body:
+        if isinstance(s, ast.Import):
+            for a in s.names:
+                (aliased if a.asname else plain).append(a.name if not a.asname
+                                                        else "%s as %s" % (a.name, a.asname))
+        elif isinstance(s, ast.ImportFrom):
+            for a in s.names:
+                froms.append("%s%s:%s" % ("." * s.level, s.module or "", a.asname or a.name))
+    for n in ast.walk(tree):
+        if isinstance(n, (ast.Import, ast.ImportFrom)) and n not in tree.body:
+            raise Untranslatable("pt_tebd_backend.py: import statement below module level")
+    lst = lambda xs: "[" + ", ".join('"%s"' % x for x in xs) + "]"
+    out.append("/-- %s  module-level `import a.b.c` statements without `as` (each binds the name `a` "
+               "and loads the modules a, a.b, a.b.c) -/\n"
+               "def plain_imports : List String := %s\n" % (rel, lst(plain)))
+    out.append("/-- %s  module-level `import x as y` and `from m import n` (as \"m:n\") statements -/\n"
+               "def aliased_imports : List String := %s\n"
+               "def from_imports : List String := %s\n" % (rel, lst(aliased), lst(froms)))
+
+
+@fragment("TebdLayers")
+def frag_tebdlayers(src):
+    out = [TL_PREAMBLE]
+    _tl_factors(src, out)
+    _tl_layers(src, out)
+    _tl_backend(src, out)
+    return "\n".join(out)
+# end of TebdLayers
 
 
 def main():
